@@ -7,9 +7,9 @@
 From Coq Require Import Lia Permutation.
 From PV Require Import Base.Bytes Model.Tag Model.TableTypes Model.Types Model.Proc Model.Enc Model.Dec Model.Obs Gen.Tables
      Model.OpenType Model.OpenTypeDef Proofs.OpenType Proofs.OpenTypeDef
-     Proofs.TagOctets Proofs.TagAlgebra Proofs.DecFrame Proofs.TagsetShape
-     Proofs.RoundTrip1 Proofs.RoundTrip2 Proofs.RoundTrip3 Proofs.RoundTrip3b Proofs.RoundTrip3c Proofs.RoundTrip3e Proofs.RoundTrip3f
-     Proofs.RoundTripModesC Proofs.RoundTripModes Proofs.RoundTripModes3b Proofs.RoundTripModes3c Proofs.RoundTripModes3f Proofs.RoundTripModes3.
+     Proofs.ProcBind Proofs.RunLemmas Proofs.RoundTrip3a Proofs.RoundTrip3d Proofs.TagOctets Proofs.TagAlgebra Proofs.DecFrame Proofs.TagsetShape
+     Proofs.ContainerCodecSort Proofs.RoundTrip1 Proofs.RoundTrip2 Proofs.RoundTrip3 Proofs.RoundTrip3b Proofs.RoundTrip3c Proofs.RoundTrip3e Proofs.RoundTrip3f
+     Proofs.AcceptedWellFormed Proofs.RoundTripModesC Proofs.RoundTripModes Proofs.RoundTripModes3b Proofs.RoundTripModes3c Proofs.RoundTripModes3f Proofs.RoundTripModes3.
 Local Open Scope N_scope.
 
 (* ====================================================================================================== *)
@@ -410,6 +410,9 @@ Definition hole_val (ce cd: codec) (d: bool) (T: ty) (oi: nat) (vs: list (option
 Lemma rec_fields_base T fs : rec_fields T = Some fs -> base_of T = TSeq fs \/ base_of T = TSet fs.
 Proof. unfold rec_fields. destruct (base_of T); intros H; try discriminate H; inversion H; auto. Qed.
 
+Lemma list_elem_base ft t : list_elem ft = Some t -> base_of ft = TSeqOf t \/ base_of ft = TSetOf t.
+Proof. unfold list_elem. destruct (base_of ft); intros H; try discriminate H; inversion H; auto. Qed.
+
 Lemma hole_filled ce cd d T fs oi vs p ft y :
   rec_fields T = Some fs -> nth_error fs oi = Some (p, ft) -> hole_val ce cd d T oi vs = true ->
   field_ok ce cd p ft (Some y) = true -> (d = false -> anys_ok ft y = true) ->
@@ -709,10 +712,6 @@ Proof.
   exact (encm_ifne ce d k Hst Ti xi chunk Hch Hne).
 Qed.
 
-(* the inner encoding is not longer than sys.maxsize *)
-Definition inner_fits (ce: codec) (d: bool) (k: N) (Ti: ty) (xi: val) : Prop :=
-  forall chunk, encode ce d k Ti xi = Ok chunk -> N.of_nat (length chunk) <= index_max.
-
 (* the inner encoding has a definite length (always so with definite lengths) *)
 Definition inner_definite (ce: codec) (d: bool) (k: N) (Ti: ty) (xi: val) : Prop :=
   forall chunk, encode ce d k Ti xi = Ok chunk -> tlv_ok chunk = true.
@@ -720,6 +719,541 @@ Definition inner_definite (ce: codec) (d: bool) (k: N) (Ti: ty) (xi: val) : Prop
 Lemma inner_definite_def ce cd srt k Ti xi : stable ce true k ->
   stage3_ty srt ce Ti = true -> stage3_val ce cd Ti xi = true -> inner_definite ce true k Ti xi.
 Proof. intros Hst Hty Hv chunk He. exact (definite_encoding_is_tlv ce cd srt k Hst Ti xi chunk Hty Hv He). Qed.
+
+(* ====================================================================================================== *)
+(* Part 6b.  The encoding of a member is not longer than the encoding of the record: the size limit on the
+   wire covers the inner encoding. *)
+
+Lemma frame_one_len t c d si sub b : frame_one t c d si sub = Ok b -> (length sub <= length b)%nat.
+Proof.
+  unfold frame_one. intros H. destruct (enc_len _ _) as [l|e]; cbn [bind] in H; [|discriminate].
+  inversion H; subst. rewrite !app_length. lia.
+Qed.
+
+Lemma frame_outer_len : forall r c d si sub b, frame_outer r c d si sub = Ok b -> (length sub <= length b)%nat.
+Proof.
+  induction r as [|t r IH]; intros c d si sub b H; cbn [frame_outer] in H.
+  - inversion H; subst. lia.
+  - destruct (frame_one t c d si sub) as [s1|e] eqn:E1; cbn [bind] in H; [|discriminate].
+    pose proof (frame_one_len _ _ _ _ _ _ E1). pose proof (IH _ _ _ _ _ H). lia.
+Qed.
+
+Lemma frame_len ts content cns o si b : frame ts content cns o si = Ok b -> (length content <= length b \/ content = [])%nat.
+Proof.
+  intros H. destruct ts as [|t0 r]; cbn [frame] in H; [inversion H; subst; left; lia|].
+  destruct content as [|x content]; [right; reflexivity|]. cbn [andb] in H.
+  destruct (frame_one t0 cns (if cns then o_def o else true) si (x :: content)) as [s0|e] eqn:E0; cbn [bind] in H; [|discriminate].
+  pose proof (frame_one_len _ _ _ _ _ _ E0). pose proof (frame_outer_len _ _ _ _ _ _ H). left. lia.
+Qed.
+
+Lemma any_enc_len ce ft o chunk b : is_any ft = true ->
+  enc_with ce (enc_content ce) ft o (VAny chunk) = Ok b -> (length chunk <= length b)%nat.
+Proof.
+  intros Ha H. unfold enc_with in H.
+  destruct (concrete_encoder ce ft) as [[ec fl]|e]; cbn [bind] in H; [|discriminate].
+  destruct (tagset_of ft) as [ts|e]; cbn [bind] in H; [|discriminate].
+  rewrite enc_content_base in H. unfold is_any in Ha. destruct (base_of ft); try discriminate Ha.
+  cbn [enc_content] in H. destruct ec; cbn [bind] in H; try discriminate H.
+  cbn [octets_of bind] in H. destruct (frame_len _ _ _ _ _ _ H) as [Hl | ->]; [exact Hl|cbn [length]; lia].
+Qed.
+
+Lemma in_concat_len (pb: bytes) (l: list bytes) : In pb l -> (length pb <= length (concat l))%nat.
+Proof.
+  induction l as [|x l IH]; intros Hin; [destruct Hin|]. cbn [concat]. rewrite app_length.
+  destruct Hin as [->|Hin]; [lia|]. specialize (IH Hin). lia.
+Qed.
+
+(* the part written for the member at [oi] is among the parts of the record *)
+Lemma rec_parts_member ce ec omit o : forall fs oi vs p ft y parts,
+  nth_error fs oi = Some (p, ft) -> not_def p -> (oi < length vs)%nat ->
+  RoundTrip3b.enc_rec_fields_g ce ec omit o fs (set_nth oi (Some y) vs) = Ok parts ->
+  exists o' pb, enc_with ce (enc_content ce) ft o' y = Ok pb /\ In pb (map snd parts).
+Proof.
+  induction fs as [|[q gt] fs IH]; intros oi vs p ft y parts Hn Hp Hl He; [destruct oi; discriminate Hn|].
+  destruct vs as [|ov vs]; [cbn [length] in Hl; lia|].
+  destruct oi as [|j]; cbn [nth_error] in Hn; cbn [set_nth] in He;
+    cbn [RoundTrip3b.enc_rec_fields_g] in He; fold (RoundTrip3b.enc_rec_fields_g ce ec omit o) in He; unfold encw in He.
+  - inversion Hn; subst q gt. clear Hn.
+    set (o' := if omit then mkOpts (o_def o) (o_chunk o) (match p with Opt => true | _ => false end) else o) in *.
+    assert (Hemit: (do b <- enc_with ce (enc_content ce) ft o' y; do rest <- RoundTrip3b.enc_rec_fields_g ce ec omit o fs vs;
+                    Ok ((set_sort_key (match ec with EcSetDer => true | _ => false end) ft y, b) :: rest)) = Ok parts).
+    { destruct p; [exact He|exact He|contradiction]. }
+    destruct (enc_with ce (enc_content ce) ft o' y) as [b|e] eqn:Eb; cbn [bind] in Hemit; [|discriminate].
+    destruct (RoundTrip3b.enc_rec_fields_g ce ec omit o fs vs) as [rest|e]; cbn [bind] in Hemit; [|discriminate].
+    inversion Hemit; subst parts. exists o', b. split; [exact Eb|left; reflexivity].
+  - cbn [length] in Hl.
+    assert (Hrest: exists rest, RoundTrip3b.enc_rec_fields_g ce ec omit o fs (set_nth j (Some y) vs) = Ok rest /\
+              forall pb, In pb (map snd rest) -> In pb (map snd parts)).
+    { set (go := RoundTrip3b.enc_rec_fields_g ce ec omit o fs (set_nth j (Some y) vs)) in *.
+      set (o' := if omit then mkOpts (o_def o) (o_chunk o) (match q with Opt => true | _ => false end) else o) in *.
+      assert (Hemit: forall x, (do b <- enc_with ce (enc_content ce) gt o' x; do rest <- go;
+                    Ok ((set_sort_key (match ec with EcSetDer => true | _ => false end) gt x, b) :: rest)) = Ok parts ->
+                exists rest, go = Ok rest /\ forall pb, In pb (map snd rest) -> In pb (map snd parts)).
+      { intros x Hx. destruct (enc_with ce (enc_content ce) gt o' x) as [b|e]; cbn [bind] in Hx; [|discriminate].
+        destruct go as [rest|e]; cbn [bind] in Hx; [|discriminate]. inversion Hx; subst parts.
+        exists rest. split; [reflexivity|]. intros pb Hin. right. exact Hin. }
+      assert (Hskip: go = Ok parts -> exists rest, go = Ok rest /\ forall pb, In pb (map snd rest) -> In pb (map snd parts)).
+      { intros Hg. exists parts. split; [exact Hg|auto]. }
+      destruct q as [| |dv]; destruct ov as [x|].
+      - exact (Hemit x He).
+      - destruct (all_optional_container gt); [exact (Hemit _ He)|discriminate He].
+      - exact (Hemit x He).
+      - exact (Hskip He).
+      - destruct (val_py_eq x dv) as [[|]|]; [exact (Hskip He)|exact (Hemit x He)|discriminate He].
+      - exact (Hskip He). }
+    destruct Hrest as (rest & Hr & Hsub).
+    destruct (IH j vs p ft y rest Hn Hp ltac:(lia) Hr) as (o' & pb & Hpb & Hin).
+    exists o', pb. split; [exact Hpb|exact (Hsub pb Hin)].
+Qed.
+
+Lemma member_in_wire ce d k T fs oi p ft vs y wire : stable ce d k ->
+  rec_fields T = Some fs -> nth_error fs oi = Some (p, ft) -> not_def p -> (oi < length vs)%nat ->
+  encode ce d k T (VRec (set_nth oi (Some y) vs)) = Ok wire ->
+  exists o' pb, enc_with ce (enc_content ce) ft o' y = Ok pb /\ (length pb <= length wire)%nat.
+Proof.
+  intros Hst Hrec Hoi Hp Hl He. rewrite encode_unfold in He.
+  destruct (RoundTripModesC.enc_with_inv_g ce T d k _ wire Hst He) as (ec & fl & ts & content & cns & _ & _ & Hcont & Hfr).
+  rewrite enc_content_base in Hcont.
+  rewrite (enc_content_rec ce (base_of T) fs ec fl _ _ (rec_fields_base T fs Hrec)) in Hcont.
+  set (om := match ec with EcSeq => ef_omit_empty fl | EcSetCer | EcSetDer => true | _ => false end) in Hcont.
+  destruct (RoundTrip3b.enc_rec_fields_g ce ec om (mo d k) fs (set_nth oi (Some y) vs)) as [parts|e] eqn:Ep; cbn [bind] in Hcont; [|discriminate].
+  destruct (rec_parts_member ce ec om (mo d k) fs oi vs p ft y parts Hoi Hp Hl Ep) as (o' & pb & Hpb & Hin).
+  exists o', pb. split; [exact Hpb|].
+  assert (H2: (length pb <= length content)%nat).
+  { destruct ec; try discriminate Hcont; inversion Hcont; subst content.
+    - exact (in_concat_len pb _ Hin).
+    - apply in_concat_len. apply (Permutation_in pb (Permutation_map snd (sort_by_perm_self tagset_ltb fst parts))). exact Hin.
+    - apply in_concat_len. apply (Permutation_in pb (Permutation_map snd (sort_by_perm_self tagset_ltb fst parts))). exact Hin. }
+  destruct (frame_len _ _ _ _ _ _ Hfr) as [H3 | H3]; [lia|]. rewrite H3 in H2. cbn [length] in H2. lia.
+Qed.
+
+Theorem chunk_in_wire ce d k T fs oi p ft vs chunk wire : stable ce d k ->
+  rec_fields T = Some fs -> nth_error fs oi = Some (p, ft) -> not_def p -> is_any ft = true -> (oi < length vs)%nat ->
+  encode ce d k T (VRec (set_nth oi (Some (VAny chunk)) vs)) = Ok wire -> (length chunk <= length wire)%nat.
+Proof.
+  intros Hst Hrec Hoi Hp Ha Hl He.
+  destruct (member_in_wire ce d k T fs oi p ft vs _ wire Hst Hrec Hoi Hp Hl He) as (o' & pb & Hpb & Hle).
+  pose proof (any_enc_len ce ft o' chunk pb Ha Hpb). lia.
+Qed.
+
+Lemma enc_elems_len ce t o : is_any t = true -> forall chunks parts,
+  RoundTrip3.enc_elems_g ce t o (map VAny chunks) = Ok parts ->
+  forall ch, In ch chunks -> (length ch <= length (concat parts))%nat.
+Proof.
+  intros Ha. induction chunks as [|c0 chunks IH]; intros parts H ch Hin; [destruct Hin|].
+  cbn [map RoundTrip3.enc_elems_g] in H. fold (RoundTrip3.enc_elems_g ce t o) in H. unfold encw in H.
+  destruct (enc_with ce (enc_content ce) t o (VAny c0)) as [pb|e] eqn:Ep; cbn [bind] in H; [|discriminate].
+  destruct (RoundTrip3.enc_elems_g ce t o (map VAny chunks)) as [ps|e] eqn:Eps; cbn [bind] in H; [|discriminate].
+  inversion H; subst parts. cbn [concat]. rewrite app_length. destruct Hin as [<-|Hin].
+  - pose proof (any_enc_len ce t o c0 pb Ha Ep). lia.
+  - specialize (IH ps eq_refl ch Hin). lia.
+Qed.
+
+Theorem chunks_in_wire ce d k T fs oi p ft t vs chunks wire : stable ce d k ->
+  rec_fields T = Some fs -> nth_error fs oi = Some (p, ft) -> not_def p -> list_elem ft = Some t -> is_any t = true ->
+  (oi < length vs)%nat ->
+  encode ce d k T (VRec (set_nth oi (Some (VList (map VAny chunks))) vs)) = Ok wire ->
+  forall ch, In ch chunks -> (length ch <= length wire)%nat.
+Proof.
+  intros Hst Hrec Hoi Hp Hle Ha Hl He ch Hin.
+  destruct (member_in_wire ce d k T fs oi p ft vs _ wire Hst Hrec Hoi Hp Hl He) as (o' & pb & Hpb & Hlen).
+  enough (length ch <= length pb)%nat by lia. clear - Hpb Hle Ha Hin.
+  pose proof (list_elem_base ft t Hle) as Hb. unfold enc_with in Hpb.
+  destruct (concrete_encoder ce ft) as [[ec fl]|e]; cbn [bind] in Hpb; [|discriminate].
+  destruct (tagset_of ft) as [ts|e]; cbn [bind] in Hpb; [|discriminate].
+  rewrite enc_content_base in Hpb. rewrite (enc_content_listof ce (base_of ft) t ec fl _ _ Hb) in Hpb.
+  set (o1 := mkOpts (o_def (fix_opts ce o')) (o_chunk (fix_opts ce o')) false) in Hpb.
+  destruct (RoundTrip3.enc_elems_g ce t o1 (map VAny chunks)) as [parts|e] eqn:Ep; cbn [bind] in Hpb; [|discriminate].
+  pose proof (enc_elems_len ce t o1 Ha chunks parts Ep ch Hin) as H1.
+  assert (Hgo: forall content cns, (length ch <= length content)%nat ->
+            frame ts content cns (fix_opts ce o') (ef_indef fl) = Ok pb -> (length ch <= length pb)%nat).
+  { intros content cns Hc Hfr. destruct (frame_len _ _ _ _ _ _ Hfr) as [H3 | H3]; [lia|]. rewrite H3 in Hc. cbn [length] in Hc. lia. }
+  destruct ec; try discriminate Hpb; cbn [bind] in Hpb.
+  - exact (Hgo _ _ H1 Hpb).
+  - exact (Hgo _ _ H1 Hpb).
+  - apply (Hgo _ _ ltac:(rewrite <- (concat_perm_length _ _ (sort_setof_perm_self parts)); exact H1) Hpb).
+Qed.
+
+(* ====================================================================================================== *)
+(* Part 6c.  The abstract content of the resolved record: the record that was sent, with the typed inner value
+   in the open member, read against the type whose open member has the mapped type. *)
+
+Lemma base_subst_field : forall T oi X, base_of (subst_field T oi X) = subst_field (base_of T) oi X.
+Proof. induction T; intros oi X; try reflexivity; cbn [subst_field base_of]; auto. Qed.
+
+Lemma rec_fields_subst T fs oi p ft X : rec_fields T = Some fs -> nth_error fs oi = Some (p, ft) ->
+  rec_fields (subst_field T oi X) = Some (set_nth oi (p, X) fs).
+Proof.
+  intros Hrec Hoi. unfold rec_fields. rewrite base_subst_field.
+  destruct (rec_fields_base T fs Hrec) as [-> | ->]; cbn [subst_field]; unfold set_field; rewrite Hoi; reflexivity.
+Qed.
+
+Lemma abs_fields_cons2 p ft fs ov vs :
+  OpenType.abs_fields ((p, ft) :: fs) (ov :: vs)
+  = (match ov, p with Some x, _ => Some (abs ft x) | None, Def dv => Some (abs ft dv) | None, _ => None end)
+    :: OpenType.abs_fields fs vs.
+Proof. reflexivity. Qed.
+
+Lemma abs_fields_subst (R: aval -> aval -> Prop) X w xi : R (abs X w) (abs X xi) ->
+  forall oi fs vs' vs p ft a,
+  nth_error fs oi = Some (p, ft) -> (oi < length vs')%nat -> (oi < length vs)%nat ->
+  Forall2 (RoundTrip3.opt_rel R) (OpenType.abs_fields fs vs') (OpenType.abs_fields fs (set_nth oi (Some a) vs)) ->
+  Forall2 (RoundTrip3.opt_rel R) (OpenType.abs_fields (set_nth oi (p, X) fs) (set_nth oi (Some w) vs'))
+                                 (OpenType.abs_fields (set_nth oi (p, X) fs) (set_nth oi (Some xi) vs)).
+Proof.
+  intros HR. induction oi as [|j IH]; intros fs vs' vs p ft a Hn Hl' Hl HF;
+    destruct fs as [|[q gt] fs]; try discriminate Hn; destruct vs' as [|ov' vs']; try (cbn [length] in Hl'; lia);
+    destruct vs as [|ov vs]; try (cbn [length] in Hl; lia); cbn [nth_error] in Hn; cbn [set_nth] in *;
+    rewrite !abs_fields_cons2 in *; inversion HF as [|? ? ? ? H0 HF']; subst.
+  - constructor; [apply RoundTrip3.opt_rel_some; exact HR|exact HF'].
+  - constructor; [exact H0|]. cbn [length] in Hl', Hl. exact (IH fs vs' vs p ft a Hn ltac:(lia) ltac:(lia) HF').
+Qed.
+
+Lemma Forall2_opt_eq (l1 l2: list (option aval)) : Forall2 (RoundTrip3.opt_rel eq) l1 l2 -> l1 = l2.
+Proof. induction 1 as [|x y l1 l2 Hxy HF IH]; [reflexivity|]. destruct Hxy; subst; reflexivity. Qed.
+
+Lemma opt_eq_Forall2 (l: list (option aval)) : Forall2 (RoundTrip3.opt_rel eq) l l.
+Proof. induction l as [|[x|] l IH]; constructor; try exact IH; constructor. reflexivity. Qed.
+
+Lemma nth_some_lt {A} (l: list (option A)) i x : nth i l None = Some x -> (i < length l)%nat.
+Proof.
+  intros H. destruct (Nat.lt_ge_cases i (length l)) as [Hlt|Hge]; [exact Hlt|].
+  rewrite (nth_overflow l None Hge) in H. discriminate H.
+Qed.
+
+Lemma record_subst_aeq T fs oi p ft vs' vs a X w xi :
+  rec_fields T = Some fs -> nth_error fs oi = Some (p, ft) -> (oi < length vs')%nat -> (oi < length vs)%nat ->
+  aeq (abs T (VRec vs')) (abs T (VRec (set_nth oi (Some a) vs))) -> aeq (abs X w) (abs X xi) ->
+  aeq (abs (subst_field T oi X) (VRec (set_nth oi (Some w) vs')))
+      (abs (subst_field T oi X) (VRec (set_nth oi (Some xi) vs))).
+Proof.
+  intros Hrec Hoi Hl' Hl Ha Hw. pose proof (rec_fields_subst T fs oi p ft X Hrec Hoi) as Hrec'.
+  rewrite !(abs_record _ _ _ Hrec'). rewrite !(abs_record T fs _ Hrec) in Ha.
+  destruct (aeq_to_rec _ _ Ha) as (l & Hl1 & HF). inversion Hl1; subst l; clear Hl1.
+  apply aeq_rec. exact (abs_fields_subst aeq X w xi Hw oi fs vs' vs p ft a Hoi Hl' Hl HF).
+Qed.
+
+Lemma record_subst_eq T fs oi p ft vs' vs a X w xi :
+  rec_fields T = Some fs -> nth_error fs oi = Some (p, ft) -> (oi < length vs')%nat -> (oi < length vs)%nat ->
+  abs T (VRec vs') = abs T (VRec (set_nth oi (Some a) vs)) -> abs X w = abs X xi ->
+  abs (subst_field T oi X) (VRec (set_nth oi (Some w) vs'))
+  = abs (subst_field T oi X) (VRec (set_nth oi (Some xi) vs)).
+Proof.
+  intros Hrec Hoi Hl' Hl Ha Hw. pose proof (rec_fields_subst T fs oi p ft X Hrec Hoi) as Hrec'.
+  rewrite !(abs_record _ _ _ Hrec'). rewrite !(abs_record T fs _ Hrec) in Ha. inversion Ha as [Ha'].
+  f_equal. apply Forall2_opt_eq. apply (abs_fields_subst eq X w xi Hw oi fs vs' vs p ft a Hoi Hl' Hl).
+  rewrite Ha'. apply opt_eq_Forall2.
+Qed.
+
+(* ====================================================================================================== *)
+(* Part 6d.  The CER/DER SET encoder with a scalar open member orders the members by the tag of the typed inner
+   value, not of the ANY that wraps it: the bytes are not those of the plain record encoder, but a re-ordering
+   of the same member encodings - and the SET decoder takes the members in any order.  Definite lengths (the
+   DER encoder), any decoder. *)
+
+Section SetAnyOrder.
+  Variables ce cd : codec.
+  Hypothesis Hce : enc_ok ce.
+  Variable R : aval -> aval -> Prop.
+  Variable srt : bool.
+  Hypothesis HR : rel_ok R srt.
+
+  (* RoundTrip3d.set_val for the member encodings in ANY order (there: in the order the encoder wrote them) *)
+  Lemma set_any_order (Pv: ty -> val -> Prop) T' fs : base_of T' = TSet fs -> wf_tags T' = true ->
+    keys_ok (flat_map ckeys (map snd fs)) = true ->
+    Forall (comp_ok ce cd R Pv) fs ->
+    forall vs, comp_vals ce Pv fs vs ->
+    forall ec omit parts wbytes ts b',
+      (omit = true -> omits ce = true) ->
+      RoundTrip3b.enc_rec_fields_g ce ec omit def_opts fs vs = Ok parts ->
+      Permutation wbytes (map snd parts) ->
+      tagset_of T' = Ok ts -> frame ts (concat wbytes) true def_opts true = Ok b' ->
+      N.of_nat (length b') <= index_max ->
+      exists ds, R (abs T' (VRec ds)) (abs T' (VRec vs)) /\
+        forall sp, resolves sp T' (VRec vs) -> item_dec cd sp T' b' (VRec ds).
+  Proof.
+    intros Hb Hw HK Hcomp vs HCV ec omit parts wbytes ts b' Homit Eparts Hperm Hts Hfr Hmax.
+    assert (Htb: tagged_base T' = true) by (unfold tagged_base; rewrite Hb; reflexivity).
+    destruct (tagset_shape T' Htb Hw) as (t0 & r & b0 & Hb0 & Hts' & Hc0 & Hex & Hd).
+    rewrite Hts in Hts'. inversion Hts'; subst ts; clear Hts'.
+    assert (Hcon: tcon t0 = true).
+    { rewrite Hc0. rewrite Hb in Hb0; inversion Hb0; reflexivity. }
+    assert (Hdep: ty_depth (base_of T') = S (max_depth fs)) by (rewrite Hb; reflexivity).
+    assert (Hnc: match T' with TChoice _ => False | _ => True end).
+    { destruct T'; try exact I. discriminate Hb. }
+    pose proof (frame_len_r _ _ _ _ _ _ Hfr) as Hlen.
+    assert (Hcl: length (concat (map snd parts)) = length (concat wbytes)).
+    { apply concat_perm_length. apply Permutation_sym. exact Hperm. }
+    destruct (fields_plan ce cd Hce R srt HR Pv ec omit Homit fs Hcomp vs parts HCV Eparts ltac:(lia)) as (ds & Habs & Hplan).
+    set (items := mk_items 0 ds (map snd parts)).
+    set (bound := (length (concat (map snd parts)) + max_depth fs)%nat).
+    assert (Hitems: forall f, (bound <= f)%nat ->
+              Forall (sitem_ok (dec_call cd f) f fs) items /\ map sbytes items = map snd parts
+              /\ place items (map (fun _ => None) fs) = ds /\ required_seen fs ds = true).
+    { intros f Hf. destruct (fplan_items (dec_call cd f) f fs HK fs vs (map snd parts) ds (Hplan f Hf) [] eq_refl) as (I1 & I2 & I3 & I4).
+      split; [exact I1|]. split; [exact I2|]. split; [exact (I3 [] eq_refl)|exact I4]. }
+    destruct (Hitems bound (le_n _)) as (_ & Hbytes & Hplace & Hseen).
+    assert (Hbytes': map sbytes items = map (fun x : bytes => x) (map snd parts)) by (rewrite map_id; exact Hbytes).
+    destruct (align_perm (fun x : bytes => x) sbytes wbytes (map snd parts) Hperm items Hbytes') as (witems & Hpi & Hwbytes).
+    rewrite map_id in Hwbytes.
+    exists ds. split.
+    { rewrite (abs_wrappers T' (VRec ds)), (abs_wrappers T' (VRec vs)), Hb. rewrite !RoundTrip3d.abs_set.
+      apply (r_rec _ _ HR). exact Habs. }
+    intros sp [Hhit Hmiss].
+    assert (Hwt: wire_tags T' (VRec vs) = t0 :: r).
+    { rewrite (wire_tags_plain T' _ Hnc). apply tagset_of'_ok. exact Hts. }
+    rewrite Hwt in Hhit, Hmiss. cbn [tl] in Hmiss. split; [lia|].
+    intros f Hfu. unfold fuel_ok in Hfu.
+    assert (Hby: by_type cd T' = Some (DcSet, mkDecFlags true (Some KSet))).
+    { rewrite by_type_base, Hb. destruct cd; vm_compute; reflexivity. }
+    assert (Hfr': frame (t0 :: r) (concat wbytes) (tcon t0) def_opts true = Ok b') by (rewrite Hcon; exact Hfr).
+    replace f with (S (f - 1 - length r) + length r)%nat by lia.
+    apply (framed_consumes_sp cd sp T' t0 r true (concat wbytes) b' (f - 1 - length r) _ _ _ Hex Hhit Hmiss Hby Hfr'); [lia|].
+    set (f0 := (f - 1 - length r)%nat).
+    assert (Hf0: (length b' + ty_depth T' <= S f0 + length r)%nat) by (subst f0; lia). clearbody f0.
+    cbn [dec_value tag0_cons]. rewrite Hcon. cbn [negb]. rewrite Hb.
+    destruct (Hitems f0 ltac:(subst bound; lia)) as (Hok & _).
+    assert (Hwok: Forall (sitem_ok (dec_call cd f0) f0 fs) witems).
+    { rewrite Forall_forall in *. intros it Hin. apply Hok. eapply Permutation_in; [apply Permutation_sym; exact Hpi|exact Hin]. }
+    assert (Hpw: place witems (map (fun _ => None) fs) = ds).
+    { rewrite <- (place_perm items witems Hpi (mk_items_nodup ds 0 (map snd parts))). exact Hplace. }
+    intros s tl Hav. unfold dec_record. rewrite resume_tell.
+    rewrite <- Hwbytes in Hav |- *.
+    destruct fs as [|f1 fs0] eqn:Efs.
+    - assert (Hw0: witems = []).
+      { assert (Hi0: items = []) by (subst items; destruct ds; [reflexivity|pose proof (Hplan bound (le_n _)) as HP; inversion HP]).
+        rewrite Hi0 in Hpi. apply Permutation_nil in Hpi. exact Hpi. }
+      rewrite Hw0 in *. cbn [map concat length app] in *.
+      destruct f0 as [|n]; [lia|].
+      cbn [record_loop]. cbv zeta. rewrite resume_tell. rewrite Nat.sub_diag.
+      cbn [N.of_nat N.ltb N.compare negb map resume].
+      assert (Hds: ds = []) by (pose proof (Hplan bound (le_n _)) as HP; inversion HP; reflexivity).
+      rewrite Hds. exists s. repeat split. lia.
+    - rewrite <- Efs in *.
+      assert (Hne: (match fs with [] => true | _ => false end) = false) by (rewrite Efs; reflexivity).
+      assert (Hcnt: (length witems <= length (concat (map sbytes witems)))%nat).
+      { clear - Hwok. induction Hwok as [|it l (ft & _ & Hl & _) _ IH]; [cbn; lia|]. cbn [length map concat]. rewrite app_length. lia. }
+      destruct (set_loop (dec_call cd f0) f0 T' fs Hne witems Hwok (map (fun _ => None) fs) 0%nat f0 (pos s)
+                  (length (concat (map sbytes witems))) s tl) as (s' & Hrun & Hpos & Harr & Hcl2).
+      + rewrite Hwbytes in Hcnt. unfold bytes in *. lia.
+      + exact Hav.
+      + lia.
+      + lia.
+      + rewrite Hpw. exact Hseen.
+      + rewrite Hpw in Hrun. exists s'. split; [exact Hrun|]. repeat split; assumption.
+  Qed.
+End SetAnyOrder.
+
+(* sorted(comps, key=...) rearranges *)
+Lemma ins_stable_perm {A K} (ltb: K -> K -> bool) (key: A -> K) x : forall l, Permutation (x :: l) (ins_stable ltb key x l).
+Proof.
+  induction l as [|y l IH]; cbn [ins_stable]; [apply Permutation_refl|].
+  destruct (ltb (key x) (key y)); [apply Permutation_refl|].
+  eapply perm_trans; [apply perm_swap|]. apply perm_skip. exact IH.
+Qed.
+
+Lemma sort_stable_perm {A K} (ltb: K -> K -> bool) (key: A -> K) (l: list A) : Permutation l (sort_stable ltb key l).
+Proof.
+  unfold sort_stable.
+  assert (H: forall l acc, Permutation (l ++ acc) (fold_left (fun acc x => ins_stable ltb key x acc) l acc)).
+  { induction l0 as [|x l0 IH]; intros acc; cbn [fold_left app]; [apply Permutation_refl|].
+    eapply perm_trans; [|apply IH]. eapply perm_trans; [apply Permutation_middle|].
+    apply Permutation_app_head. apply ins_stable_perm. }
+  specialize (H l []). rewrite app_nil_r in H. exact H.
+Qed.
+
+(* the parts of the CER/DER SET encoder with an open member and those of the plain record encoder on the record
+   with the wrapped chunk in the member: the same member encodings in the same (declaration) order *)
+Section SetParts.
+  Variables (c: codec) (dyn: bool) (o: eopts) (ec: enc_codec).
+
+  Lemma set_parts_after oi part : forall fs i vs sparts, (oi < i)%nat ->
+    set_parts c dyn o oi part i fs vs = Ok sparts ->
+    exists pparts, RoundTrip3b.enc_rec_fields_g c ec true o fs vs = Ok pparts /\ map snd pparts = map snd sparts.
+  Proof.
+    induction fs as [|[q gt] fs IH]; intros i vs sparts Hi H.
+    - cbn [set_parts] in H. inversion H; subst. exists []. split; reflexivity.
+    - cbn [set_parts] in H. cbn [RoundTrip3b.enc_rec_fields_g]. fold (RoundTrip3b.enc_rec_fields_g c ec true o).
+      assert (Hneq: Nat.eqb i oi = false) by (apply Nat.eqb_neq; lia). rewrite Hneq in H. unfold encw.
+      set (ov := match vs with x :: _ => x | [] => None end) in *.
+      set (vs' := match vs with _ :: r => r | [] => [] end) in *.
+      assert (Hskip: set_parts c dyn o oi part (S i) fs vs' = Ok sparts ->
+                exists pparts, RoundTrip3b.enc_rec_fields_g c ec true o fs vs' = Ok pparts /\ map snd pparts = map snd sparts).
+      { intros H0. exact (IH (S i) vs' sparts ltac:(lia) H0). }
+      assert (Hemit: forall x,
+                (do b <- enc c gt (mkOpts (o_def o) (o_chunk o) (is_opt q)) x;
+                 do rest <- set_parts c dyn o oi part (S i) fs vs'; Ok ((set_sort_key dyn gt x, b) :: rest)) = Ok sparts ->
+                exists pparts,
+                  (do b <- enc_with c (enc_content c) gt (mkOpts (o_def o) (o_chunk o) (match q with Opt => true | _ => false end)) x;
+                   do rest <- RoundTrip3b.enc_rec_fields_g c ec true o fs vs';
+                   Ok ((set_sort_key (match ec with EcSetDer => true | _ => false end) gt x, b) :: rest)) = Ok pparts
+                  /\ map snd pparts = map snd sparts).
+      { intros x H0. change (is_opt q) with (match q with Opt => true | _ => false end) in H0. unfold enc in H0.
+        destruct (enc_with c (enc_content c) gt _ x) as [b|e]; cbn [bind] in *; [|discriminate].
+        destruct (set_parts c dyn o oi part (S i) fs vs') as [rest|e] eqn:Er; cbn [bind] in H0; [|discriminate].
+        inversion H0; subst sparts. destruct (IH (S i) vs' rest ltac:(lia) Er) as (pr & Hpr & Hm).
+        rewrite Hpr. cbn [bind]. eexists. split; [reflexivity|]. cbn [map snd]. rewrite Hm. reflexivity. }
+      destruct q as [| |dv]; destruct ov as [x|].
+      + exact (Hemit x H).
+      + discriminate H.
+      + exact (Hemit x H).
+      + exact (Hskip H).
+      + destruct (val_py_eq x dv) as [[|]|]; [exact (Hskip H)|exact (Hemit x H)|discriminate H].
+      + exact (Hskip H).
+  Qed.
+
+  Lemma set_parts_at kx bo w : forall j fs i vs sparts p ft,
+    nth_error fs j = Some (p, ft) -> not_def p -> (j < length vs)%nat ->
+    set_parts c dyn o (i + j) (Some (kx, bo)) i fs vs = Ok sparts ->
+    enc c ft (mkOpts (o_def o) (o_chunk o) (is_opt p)) w = Ok bo ->
+    exists pparts, RoundTrip3b.enc_rec_fields_g c ec true o fs (set_nth j (Some w) vs) = Ok pparts
+                   /\ map snd pparts = map snd sparts.
+  Proof.
+    induction j as [|j IH]; intros fs i vs sparts p ft Hn Hp Hl H Hbo; destruct fs as [|[q gt] fs]; try discriminate Hn;
+      destruct vs as [|ov vs]; try (cbn [length] in Hl; lia); cbn [nth_error] in Hn; cbn [set_nth];
+      cbn [set_parts] in H; cbn [RoundTrip3b.enc_rec_fields_g]; fold (RoundTrip3b.enc_rec_fields_g c ec true o); unfold encw.
+    - inversion Hn; subst q gt. rewrite Nat.add_0_r, Nat.eqb_refl in H.
+      destruct (set_parts c dyn o i (Some (kx, bo)) (S i) fs vs) as [rest|e] eqn:Er; cbn [bind] in H; [|discriminate].
+      inversion H; subst sparts.
+      destruct (set_parts_after i (Some (kx, bo)) fs (S i) vs rest ltac:(lia) Er) as (pr & Hpr & Hm).
+      change (is_opt p) with (match p with Opt => true | _ => false end) in Hbo. unfold enc in Hbo.
+      assert (Hemit: (do b <- enc_with c (enc_content c) ft (mkOpts (o_def o) (o_chunk o) (match p with Opt => true | _ => false end)) w;
+                      do rest0 <- RoundTrip3b.enc_rec_fields_g c ec true o fs vs;
+                      Ok ((set_sort_key (match ec with EcSetDer => true | _ => false end) ft w, b) :: rest0))
+                     = Ok ((set_sort_key (match ec with EcSetDer => true | _ => false end) ft w, bo) :: pr)).
+      { rewrite Hbo, Hpr. reflexivity. }
+      eexists. split; [destruct p; [exact Hemit|exact Hemit|contradiction]|]. cbn [map snd]. rewrite Hm. reflexivity.
+    - assert (Hneq: Nat.eqb i (i + S j) = false) by (apply Nat.eqb_neq; lia). rewrite Hneq in H.
+      cbn [length] in Hl.
+      assert (Hrec: forall sp, set_parts c dyn o (i + S j) (Some (kx, bo)) (S i) fs vs = Ok sp ->
+                exists pparts, RoundTrip3b.enc_rec_fields_g c ec true o fs (set_nth j (Some w) vs) = Ok pparts /\ map snd pparts = map snd sp).
+      { intros sp H0. replace (i + S j)%nat with (S i + j)%nat in H0 by lia.
+        exact (IH fs (S i) vs sp p ft Hn Hp ltac:(lia) H0 Hbo). }
+      assert (Hemit: forall x,
+                (do b <- enc c gt (mkOpts (o_def o) (o_chunk o) (is_opt q)) x;
+                 do rest <- set_parts c dyn o (i + S j) (Some (kx, bo)) (S i) fs vs; Ok ((set_sort_key dyn gt x, b) :: rest)) = Ok sparts ->
+                exists pparts,
+                  (do b <- enc_with c (enc_content c) gt (mkOpts (o_def o) (o_chunk o) (match q with Opt => true | _ => false end)) x;
+                   do rest <- RoundTrip3b.enc_rec_fields_g c ec true o fs (set_nth j (Some w) vs);
+                   Ok ((set_sort_key (match ec with EcSetDer => true | _ => false end) gt x, b) :: rest)) = Ok pparts
+                  /\ map snd pparts = map snd sparts).
+      { intros x H0. change (is_opt q) with (match q with Opt => true | _ => false end) in H0. unfold enc in H0.
+        destruct (enc_with c (enc_content c) gt _ x) as [b|e]; cbn [bind] in *; [|discriminate].
+        destruct (set_parts c dyn o (i + S j) (Some (kx, bo)) (S i) fs vs) as [rest|e] eqn:Er; cbn [bind] in H0; [|discriminate].
+        inversion H0; subst sparts. destruct (Hrec rest eq_refl) as (pr & Hpr & Hm).
+        rewrite Hpr. cbn [bind]. eexists. split; [reflexivity|]. cbn [map snd]. rewrite Hm. reflexivity. }
+      destruct q as [| |dv]; destruct ov as [x|].
+      + exact (Hemit x H).
+      + discriminate H.
+      + exact (Hemit x H).
+      + exact (Hrec sparts H).
+      + destruct (val_py_eq x dv) as [[|]|]; [exact (Hrec sparts H)|exact (Hemit x H)|discriminate H].
+      + exact (Hrec sparts H).
+  Qed.
+End SetParts.
+
+Lemma mode_der cd d k : mode_ok DER cd d k -> d = true /\ k = 0.
+Proof.
+  intros [_ -> -> | Hst _]; [split; reflexivity|].
+  unfold stable, fix_opts, mo in Hst. cbn in Hst. inversion Hst. split; reflexivity.
+Qed.
+
+(* the first pass on the bytes of the DER SET encoder with a scalar open member *)
+Lemma sorted_first_pass cd srt T fs oi p ft vs Ti xi wire :
+  stage3_ty srt DER T = true -> rec_fields T = Some fs -> base_of T = TSet fs ->
+  nth_error fs oi = Some (p, ft) -> is_any ft = true -> not_def p ->
+  hole_val DER cd true T oi vs = true ->
+  stage3_ty srt DER Ti = true -> stage3_val DER cd Ti xi = true -> holds_blob ft Ti = false ->
+  inner_kept DER p Ti xi ->
+  enc_open DER true 0 T oi (VRec vs) true [(Ti, xi)] = Ok wire -> N.of_nat (length wire) <= index_max ->
+  exists chunk v', encode DER true 0 Ti xi = Ok chunk /\ tlv_ok chunk = true /\ (length chunk <= length wire)%nat /\
+    decode cd (Some T) wire = Ok (DV T v', []) /\
+    aeq (abs T v') (abs T (VRec (set_nth oi (Some (VAny chunk)) vs))) /\
+    (srt = false -> abs T v' = abs T (VRec (set_nth oi (Some (VAny chunk)) vs))).
+Proof.
+  intros Hty Hrec Hb Hoi Hany Hp Hvs Hti Hxi Hblob Hkept Henc Hmax.
+  assert (Hce: enc_ok DER) by (right; reflexivity).
+  assert (Hlen: (oi < length vs)%nat).
+  { unfold hole_val in Hvs. rewrite Hrec in Hvs. apply Bool.andb_true_iff in Hvs. exact (sv3_hole_length DER cd oi fs vs (proj1 Hvs)). }
+  (* the encoder *)
+  assert (Hcenc: exists fl, concrete_encoder DER T = Ok (EcSetDer, fl) /\ ef_indef fl = true).
+  { rewrite concrete_encoder_base, Hb. eexists. split; [vm_compute; reflexivity|reflexivity]. }
+  destruct Hcenc as (fl & Hcenc & Hsi).
+  unfold enc_open in Henc. rewrite Hrec, Hoi in Henc. cbn [negb] in Henc. cbv iota in Henc.
+  rewrite Hcenc in Henc. cbn [bind fst sorts_members] in Henc. rewrite (list_elem_any ft Hany) in Henc. cbn [andb] in Henc.
+  rewrite Hany in Henc. cbn [negb] in Henc. cbv iota in Henc.
+  unfold enc_sorted_set in Henc. rewrite Hcenc in Henc. cbn [bind] in Henc.
+  destruct (tagset_of T) as [ts|e] eqn:Hts; cbn [bind] in Henc; [|discriminate].
+  destruct (member_opts DER true 0 T p) as [mo'|e] eqn:Hmo; cbn [bind] in Henc; [|discriminate].
+  unfold wrap_inner in Henc. rewrite Hblob in Henc.
+  destruct (enc DER Ti mo' xi) as [chunk|e] eqn:Hch; cbn [bind] in Henc; [|discriminate].
+  destruct (enc DER ft mo' (VAny chunk)) as [bo|e] eqn:Hbo; cbn [bind] in Henc; [|discriminate].
+  change (fix_opts DER (mkOpts true 0 false)) with def_opts in Henc.
+  destruct (set_parts DER true def_opts oi (Some (set_sort_key true Ti xi, bo)) 0 fs vs) as [sparts|e] eqn:Esp; cbn [bind] in Henc; [|discriminate].
+  rewrite Hsi in Henc.
+  pose proof (member_chunk DER true 0 T fs p Ti xi mo' chunk stable_der Hrec Hmo Hch Hkept) as Hchunk.
+  pose proof (definite_encoding_is_tlv DER cd srt 0 stable_der Ti xi chunk Hti Hxi Hchunk) as Htlv.
+  assert (Hmo': mo' = mkOpts (o_def def_opts) (o_chunk def_opts) (is_opt p)).
+  { unfold member_opts in Hmo. rewrite Hcenc in Hmo. cbn [bind fst snd omit_flag andb] in Hmo. inversion Hmo. reflexivity. }
+  rewrite Hmo' in Hbo.
+  destruct (set_parts_at DER true def_opts EcSetDer (set_sort_key true Ti xi) bo (VAny chunk) oi fs 0%nat vs sparts p ft
+              Hoi Hp Hlen Esp Hbo) as (pparts & Hpp & Hmap).
+  set (sentvs := set_nth oi (Some (VAny chunk)) vs) in *.
+  set (wbytes := map snd (sort_stable tagset_ltb fst sparts)) in *.
+  assert (Hperm: Permutation wbytes (map snd pparts)).
+  { rewrite Hmap. subst wbytes. apply Permutation_map. apply Permutation_sym. apply sort_stable_perm. }
+  (* the value of the record *)
+  destruct (hole_filled DER cd true T fs oi vs p ft (VAny chunk) Hrec Hoi Hvs
+              (any_fill_field DER cd p ft chunk Hany Htlv Hp) (fun E => match Bool.diff_true_false E with end)) as [Hsv _].
+  fold sentvs in Hsv.
+  assert (Hna: base_of T <> TAny) by (rewrite Hb; discriminate).
+  destruct (stage3_ty_base srt DER T Hty) as [Hw Htb]. rewrite Hb in Htb. cbn [stage3_ty] in Htb.
+  apply Bool.andb_true_iff in Htb. destruct Htb as [Hfs HK]. rewrite forallb_forall in Hfs.
+  assert (HCV: comp_vals DER (Pv3 DER cd) fs sentvs).
+  { rewrite (stage3_val_base DER cd T _ Hna), Hb in Hsv. rewrite (stage3_val_rec DER cd (TSet fs) fs sentvs (or_intror eq_refl)) in Hsv.
+    apply (comp_vals_of_bool DER cd fs); [|exact Hsv]. apply forallb_forall. intros f Hin.
+    specialize (Hfs f Hin). apply Bool.andb_true_iff in Hfs. exact (proj2 Hfs). }
+  assert (Hlenw: (length chunk <= length wire)%nat).
+  { destruct (rec_parts_member DER EcSetDer true def_opts fs oi vs p ft (VAny chunk) pparts Hoi Hp Hlen Hpp) as (o' & pb & Hpb & Hin).
+    pose proof (any_enc_len DER ft o' chunk pb Hany Hpb) as H1.
+    pose proof (in_concat_len pb wbytes (Permutation_in pb (Permutation_sym Hperm) Hin)) as H2.
+    destruct (frame_len _ _ _ _ _ _ Henc) as [H3 | H3]; [lia|]. rewrite H3 in H2. cbn [length] in H2. lia. }
+  assert (Hgen: forall R srt0, rel_ok R srt0 -> stage3_ty srt0 DER T = true ->
+            (forall f, In f fs -> stage3_ty srt0 DER (snd f) = true) ->
+            exists v', decode cd (Some T) wire = Ok (DV T v', []) /\ R (abs T v') (abs T (VRec sentvs))).
+  { intros R srt0 HR Hty0 Hfs0.
+    assert (Hcomp: Forall (comp_ok DER cd R (Pv3 DER cd)) fs).
+    { apply Forall_forall. intros f Hin.
+      assert (HKf: keys_ok (ckeys (snd f)) = true).
+      { apply (keys_ok_sub (snd f) (map snd fs)); [apply in_map; exact Hin|exact HK]. }
+      split; [intros _; exact HKf|]. intros x Hx.
+      assert (Hval: val_ok DER cd R (snd f) x).
+      { apply (stage3_val_ok DER cd Hce R srt0 HR true true
+                 (fun _ T' fs' => set_val DER cd Hce R srt0 HR (Pv3 DER cd) T' fs')
+                 (fun _ y Hy => any_item DER cd Hce R srt0 HR y Hy)
+                 (fun _ T' Hb' Hwr Hty' y Hy => any_val_tagged DER cd Hce R srt0 HR srt0 T' Hb' Hwr Hty' y Hy)
+                 (snd f) (snd f) eq_refl (Hfs0 f Hin) (frag_all _) (keys_not_any _ HKf) x Hx). }
+      split; [intros _; exact Hval|]. intros _.
+      apply (item_sty_of_val DER cd R); [exact Hval|].
+      apply resolves_sty; [exact HKf|exact (wire_nonempty DER cd (snd f) x HKf Hx)]. }
+    destruct (set_any_order DER cd Hce R srt0 HR (Pv3 DER cd) T fs Hb Hw HK Hcomp sentvs HCV EcSetDer true pparts wbytes ts wire
+                (fun _ => eq_refl) Hpp Hperm Hts Henc Hmax) as (ds & HRd & Hit).
+    assert (HKT: keys_ok (ckeys T) = true).
+    { apply (top_keys DER srt0 T Hty0). intros E. rewrite E in Hb. discriminate Hb. }
+    destruct (Hit (STy T) (resolves_sty T _ HKT (wire_nonempty DER cd T _ HKT Hsv))) as [_ Hc].
+    exists (VRec ds). split; [|exact HRd]. unfold decode.
+    assert (Hf: fuel_ok T wire (dec_fuel (Some T) (wire ++ []))).
+    { unfold fuel_ok, dec_fuel. rewrite app_length. cbn [length]. lia. }
+    pose proof (consumes_decode_with cd _ (Some T) wire [] (DV T (VRec ds)) (Hc _ Hf)) as Hdw.
+    rewrite app_nil_r in Hdw. unfold decode_with in Hdw. rewrite app_nil_r in Hf. exact Hdw. }
+  assert (Hfs': forall f, In f fs -> stage3_ty srt DER (snd f) = true).
+  { intros f Hin. specialize (Hfs f Hin). apply Bool.andb_true_iff in Hfs. exact (proj1 Hfs). }
+  destruct srt.
+  - destruct (Hgen aeq true rel_ok_aeq Hty Hfs') as (v' & Hd & Ha).
+    exists chunk, v'. repeat (split; [assumption|]). discriminate.
+  - destruct (Hgen eq false rel_ok_eq Hty Hfs') as (v' & Hd & Ha).
+    exists chunk, v'. repeat (split; [assumption|]). split; [rewrite Ha; apply aeq_refl|intros _; exact Ha].
+Qed.
 
 (* ====================================================================================================== *)
 (* Part 7.  The scalar open member (ANY DEFINED BY; the ANY untagged or tagged): unconditional theorems. *)
@@ -738,7 +1272,8 @@ Section OpenScalar.
   Hypothesis Hp : not_def p.
   Hypothesis Hpg : not_def pg.
   Hypothesis Hne : gi <> oi.
-  Hypothesis Hkeep : keeps_order ce T.
+  (* the encoder does not re-order the members - or it is the DER encoder, whose re-ordering is covered *)
+  Hypothesis Hkeep : keeps_order ce T \/ ce = DER.
   (* the record value: the other members are values of their types; the governing member holds g *)
   Variables (vs: list (option val)) (g: val).
   Hypothesis Hvs : hole_val ce cd d T oi vs = true.
@@ -763,25 +1298,30 @@ Section OpenScalar.
 
   (* the first pass: the plain decoder reads the record with the complete inner encoding in the ANY *)
   Lemma open_first_pass :
-    exists chunk v', encode ce d k Ti xi = Ok chunk /\ tlv_ok chunk = true /\
-      encode ce d k T (VRec (set_nth oi (Some (VAny chunk)) vs)) = Ok wire /\
+    exists chunk v', encode ce d k Ti xi = Ok chunk /\ tlv_ok chunk = true /\ (length chunk <= length wire)%nat /\
       decode cd (Some T) wire = Ok (DV T v', []) /\
       aeq (abs T v') (abs T (VRec (set_nth oi (Some (VAny chunk)) vs))) /\
       (srt = false -> abs T v' = abs T (VRec (set_nth oi (Some (VAny chunk)) vs))).
   Proof.
     pose proof (mode_stable ce cd d k Hmode) as Hst.
-    destruct (rec_encoder ce T fs Hrec) as (ec & fl & Hc & _ & _).
-    destruct (enc_open_plain ce d k T fs oi p ft vs Ti xi (ec, fl) wire Hrec Hoi Hany Hc
-                (keeps_order_plain ce T fs (ec, fl) Hrec Hkeep Hc) Hblob Henc) as (mo' & chunk & Hmo & Hch & Hplain).
-    pose proof (member_chunk ce d k T fs p Ti xi mo' chunk Hst Hrec Hmo Hch Hkept) as Hchunk.
-    assert (Htlv: tlv_ok chunk = true).
-    { destruct d eqn:Ed.
-      - exact (inner_definite_def ce cd srt k Ti xi Hst Hti Hxi chunk Hchunk).
-      - exact (Hidef eq_refl chunk Hchunk). }
-    destruct (hole_filled ce cd d T fs oi vs p ft (VAny chunk) Hrec Hoi Hvs
-                (any_fill_field ce cd p ft chunk Hany Htlv Hp) (fun _ => any_fill_anys ft chunk Hany Htlv)) as [Hsv Hsa].
-    destruct (codec_rt ce cd d k srt Hmode T _ wire Hty Hf01 Hsv Hsa Hplain Hmax) as (v' & Hdec & Haeq & Heq).
-    exists chunk, v'. repeat (split; [assumption|]). exact Heq.
+    assert (Hcase: keeps_order ce T \/ (ce = DER /\ base_of T = TSet fs)).
+    { destruct Hkeep as [H|H]; [left; exact H|]. destruct (rec_fields_base T fs Hrec) as [E|E]; [left; right; eauto|right; auto]. }
+    destruct Hcase as [Hko | [Hder Hset]].
+    - destruct (rec_encoder ce T fs Hrec) as (ec & fl & Hc & _ & _).
+      destruct (enc_open_plain ce d k T fs oi p ft vs Ti xi (ec, fl) wire Hrec Hoi Hany Hc
+                  (keeps_order_plain ce T fs (ec, fl) Hrec Hko Hc) Hblob Henc) as (mo' & chunk & Hmo & Hch & Hplain).
+      pose proof (member_chunk ce d k T fs p Ti xi mo' chunk Hst Hrec Hmo Hch Hkept) as Hchunk.
+      assert (Htlv: tlv_ok chunk = true).
+      { destruct d eqn:Ed.
+        - exact (inner_definite_def ce cd srt k Ti xi Hst Hti Hxi chunk Hchunk).
+        - exact (Hidef eq_refl chunk Hchunk). }
+      destruct (hole_filled ce cd d T fs oi vs p ft (VAny chunk) Hrec Hoi Hvs
+                  (any_fill_field ce cd p ft chunk Hany Htlv Hp) (fun _ => any_fill_anys ft chunk Hany Htlv)) as [Hsv Hsa].
+      destruct (codec_rt ce cd d k srt Hmode T _ wire Hty Hf01 Hsv Hsa Hplain Hmax) as (v' & Hdec & Haeq & Heq).
+      pose proof (chunk_in_wire ce d k T fs oi p ft vs chunk wire Hst Hrec Hoi Hp Hany hole_len Hplain) as Hcw.
+      exists chunk, v'. repeat (split; [assumption|]). exact Heq.
+    - subst ce. destruct (mode_der cd d k Hmode) as [-> ->].
+      exact (sorted_first_pass cd srt T fs oi p ft vs Ti xi wire Hty Hrec Hset Hoi Hany Hp Hvs Hti Hxi Hblob Hkept Henc Hmax).
   Qed.
 
   (* (1) resolution off, or the governing value in neither map: the member holds exactly the complete
@@ -806,7 +1346,6 @@ Section OpenScalar.
          the member comes back as the inner value - same abstract content - read against the mapped type *)
   Hypothesis Hif01 : d = false -> no_f01 Ti = true.
   Hypothesis Hianys : d = false -> anys_ok Ti xi = true.
-  Hypothesis Hifits : inner_fits ce d k Ti xi.
 
   Theorem open_resolved : forall dflt override dot,
     (dot = true \/ override <> []) -> resolve_type override dflt g = Some Ti ->
@@ -820,8 +1359,8 @@ Section OpenScalar.
       (srt = false -> abs T (VRec vs') = abs T (VRec (set_nth oi (Some (VAny chunk)) vs))).
   Proof.
     intros dflt override dot Hon Hmap.
-    destruct open_first_pass as (chunk & v' & Hchunk & Htlv & Hplain & Hdec & Haeq & Heq).
-    pose proof (Hifits chunk Hchunk) as Hcmax.
+    destruct open_first_pass as (chunk & v' & Hchunk & Htlv & Hcw & Hdec & Haeq & Heq).
+    assert (Hcmax: N.of_nat (length chunk) <= index_max) by lia.
     destruct (codec_rt ce cd d k srt Hmode Ti xi chunk Hti Hif01 Hxi Hianys Hchunk Hcmax) as (w & Hdw & Haw & Hew).
     destruct (resolved_a cd T fs gi oi p ft gT pg Hrec Hoi Hgi Hany Hp Hpg vs g chunk Hg Hgok Hne hole_len
                 dflt override dot wire v' Hdec Haeq Ti w Hon Hmap (tlv_no_eoo_prefix chunk Htlv) Hdw) as (vs' & -> & Hg' & Hd).
@@ -845,13 +1384,40 @@ Section OpenScalar.
     - right. destruct override; [discriminate Hov|discriminate].
     - apply override_wins. exact Hov.
   Qed.
+  (* (2') the same in one statement: decoding returns - read against the type whose open member has the mapped
+          type - the record that was sent with the typed inner value in the open member *)
+  Theorem open_resolved_record : forall dflt override dot,
+    (dot = true \/ override <> []) -> resolve_type override dflt g = Some Ti ->
+    exists rv,
+      dec_open cd T gi oi dflt override dot wire = Ok (DV (subst_field T oi Ti) rv, []) /\
+      aeq (abs (subst_field T oi Ti) rv) (abs (subst_field T oi Ti) (VRec (set_nth oi (Some xi) vs))) /\
+      (srt = false -> abs (subst_field T oi Ti) rv = abs (subst_field T oi Ti) (VRec (set_nth oi (Some xi) vs))).
+  Proof.
+    intros dflt override dot Hon Hmap.
+    destruct (open_resolved dflt override dot Hon Hmap) as (chunk & w & vs' & _ & Hd & Haw & Hew & _ & Har & Her).
+    destruct (first_pass_facts_a T fs gi oi p ft gT pg Hrec Hoi Hgi Hany Hp Hpg vs g chunk Hg Hgok Hne hole_len
+                (VRec vs') Har) as (vs2 & Hv2 & (fv & Hfv & _) & _).
+    inversion Hv2; subst vs2. pose proof (nth_some_lt vs' oi fv Hfv) as Hl'.
+    exists (VRec (set_nth oi (Some w) vs')). split; [exact Hd|]. split.
+    - exact (record_subst_aeq T fs oi p ft vs' vs (VAny chunk) Ti w xi Hrec Hoi Hl' hole_len Har Haw).
+    - intros Hs. exact (record_subst_eq T fs oi p ft vs' vs (VAny chunk) Ti w xi Hrec Hoi Hl' hole_len (Her Hs) (Hew Hs)).
+  Qed.
+
+  Theorem open_override_wins_record : forall dflt override dot,
+    omap_find g override = Some Ti ->
+    exists rv,
+      dec_open cd T gi oi dflt override dot wire = Ok (DV (subst_field T oi Ti) rv, []) /\
+      aeq (abs (subst_field T oi Ti) rv) (abs (subst_field T oi Ti) (VRec (set_nth oi (Some xi) vs))) /\
+      (srt = false -> abs (subst_field T oi Ti) rv = abs (subst_field T oi Ti) (VRec (set_nth oi (Some xi) vs))).
+  Proof.
+    intros dflt override dot Hov. apply open_resolved_record.
+    - right. destruct override; [discriminate Hov|discriminate].
+    - apply override_wins. exact Hov.
+  Qed.
 End OpenScalar.
 
 (* ====================================================================================================== *)
 (* Part 8.  SEQUENCE OF / SET OF ANY open members: every element. *)
-
-Lemma list_elem_base ft t : list_elem ft = Some t -> base_of ft = TSeqOf t \/ base_of ft = TSetOf t.
-Proof. unfold list_elem. destruct (base_of ft); intros H; try discriminate H; inversion H; auto. Qed.
 
 Lemma list_fill_val ce cd ft t chunks : list_elem ft = Some t -> is_any t = true ->
   Forall (fun ch => tlv_ok ch = true) chunks -> stage3_val ce cd ft (VList (map VAny chunks)) = true.
@@ -959,6 +1525,7 @@ Section OpenList.
   Lemma open_first_pass_list :
     exists chunks v', Forall2 (fun i ch => encode ce d k (fst i) (snd i) = Ok ch) inners chunks /\
       Forall (fun ch => tlv_ok ch = true) chunks /\
+      encode ce d k T (VRec (set_nth oi (Some (VList (map VAny chunks))) vs)) = Ok wire /\
       decode cd (Some T) wire = Ok (DV T v', []) /\
       aeq (abs T v') (abs T (VRec (set_nth oi (Some (VList (map VAny chunks))) vs))) /\
       (srt = false -> abs T v' = abs T (VRec (set_nth oi (Some (VList (map VAny chunks))) vs))).
@@ -996,7 +1563,7 @@ Section OpenList.
       Forall (fun y => exists Ti xi ch, In (Ti, xi) inners /\ encode ce d k Ti xi = Ok ch /\ octets_of y = Some ch) ys.
   Proof.
     intros dflt override dot Hoff.
-    destruct open_first_pass_list as (chunks & v' & HF2 & Htlv & Hdec & Haeq & _).
+    destruct open_first_pass_list as (chunks & v' & HF2 & Htlv & _ & Hdec & Haeq & _).
     destruct (raw_list_a cd T fs gi oi p ft t gT pg Hrec Hoi Hgi Hlist Hany Hp Hpg vs g chunks Hg Hgok Hne hole_len_l
                 dflt override dot wire v' Hdec Haeq Hoff) as (vs' & ys & Hd & Hn & HL & HFy).
     exists vs', ys. split; [exact Hd|]. split; [exact Hn|]. split.
@@ -1011,7 +1578,6 @@ Section OpenList.
   Hypothesis Hsame : inners = map (fun x => (E, x)) xs.
   Hypothesis Hif01 : d = false -> no_f01 E = true.
   Hypothesis Hianys : d = false -> forall x, In x xs -> anys_ok E x = true.
-  Hypothesis Hifits : forall x, In x xs -> inner_fits ce d k E x.
 
   Theorem open_resolved_list : forall dflt override dot,
     (dot = true \/ override <> []) -> resolve_type override dflt g = Some E ->
@@ -1023,7 +1589,7 @@ Section OpenList.
       nth gi vs' None = Some g.
   Proof.
     intros dflt override dot Hon Hmap.
-    destruct open_first_pass_list as (chunks & v' & HF2 & Htlv & Hdec & Haeq & _).
+    destruct open_first_pass_list as (chunks & v' & HF2 & Htlv & Hplain & Hdec & Haeq & _).
     set (P := fun (ch: bytes) (w: val) => exists x, In x xs /\ aeq (abs E w) (abs E x) /\ (srt = false -> abs E w = abs E x)).
     assert (Hin: forall ch, In ch chunks ->
                no_eoo_prefix ch = true /\ exists w, decode cd (Some E) ch = Ok (DV E w, []) /\ P ch w).
@@ -1031,7 +1597,10 @@ Section OpenList.
       destruct (Forall2_in_right _ _ _ HF2 ch Hc) as ([Ti x] & Hi & He). cbn [fst snd] in He.
       rewrite Forall_forall in Hinners. destruct (Hinners _ Hi) as (H1 & H2 & _ & _). cbn [fst snd] in H1, H2.
       rewrite Hsame in Hi. apply in_map_iff in Hi. destruct Hi as (x' & Heq & Hx). inversion Heq; subst Ti x'.
-      destruct (codec_rt ce cd d k srt Hmode E x ch H1 Hif01 H2 (fun Hd => Hianys Hd x Hx) He (Hifits x Hx ch He))
+      assert (Hcmax: N.of_nat (length ch) <= index_max).
+      { pose proof (chunks_in_wire ce d k T fs oi p ft t vs chunks wire (mode_stable ce cd d k Hmode) Hrec Hoi Hp Hlist Hany
+                      hole_len_l Hplain ch Hc). lia. }
+      destruct (codec_rt ce cd d k srt Hmode E x ch H1 Hif01 H2 (fun Hd => Hianys Hd x Hx) He Hcmax)
         as (w & Hdw & Haw & Hew).
       exists w. split; [exact Hdw|]. exists x. auto. }
     destruct (resolved_list_a cd T fs gi oi p ft t gT pg Hrec Hoi Hgi Hlist Hany Hp Hpg vs g chunks Hg Hgok Hne hole_len_l
@@ -1056,6 +1625,556 @@ Section OpenList.
   Qed.
 End OpenList.
 
+(* ====================================================================================================== *)
+(* Part 8a.  The list member in one statement: the resolved record is the record that was sent with the typed
+   inner values in the open member (SEQUENCE OF: in order; SET OF: as a multiset). *)
+
+Lemma Forall2_map_both {A B C D} (R: C -> D -> Prop) (f: A -> C) (g: B -> D) : forall l1 l2,
+  Forall2 R (map f l1) (map g l2) -> Forall2 (fun a b => R (f a) (g b)) l1 l2.
+Proof.
+  induction l1 as [|a l1 IH]; intros [|b l2] H; cbn [map] in H; inversion H; subst; constructor; auto.
+Qed.
+
+Lemma Forall2_map_both' {A B C D} (R: C -> D -> Prop) (f: A -> C) (g: B -> D) : forall l1 l2,
+  Forall2 (fun a b => R (f a) (g b)) l1 l2 -> Forall2 R (map f l1) (map g l2).
+Proof. induction 1; cbn [map]; constructor; auto. Qed.
+
+Lemma retype_list_base : forall ft t E, list_elem ft = Some t ->
+  (base_of ft = TSeqOf t -> base_of (retype_list ft E) = TSeqOf E) /\
+  (base_of ft = TSetOf t -> base_of (retype_list ft E) = TSetOf E).
+Proof.
+  unfold list_elem. induction ft; intros t0 E Hl; cbn [base_of retype_list] in *; try discriminate Hl;
+    try (split; intros H; try discriminate H; reflexivity).
+  - exact (IHft t0 E Hl).
+  - exact (IHft t0 E Hl).
+Qed.
+
+(* the decoded list member, element by element against the chunks (SET OF: against a rearrangement of them) *)
+Lemma list_member_pos ft t fv chunks :
+  list_elem ft = Some t -> is_any t = true ->
+  aeq (abs ft fv) (abs ft (VList (map VAny chunks))) ->
+  exists ys chunks', fv = VList ys /\ Permutation chunks chunks' /\ (base_of ft = TSeqOf t -> chunks' = chunks) /\
+    Forall2 (fun ch y => octets_of y = Some ch) chunks' ys.
+Proof.
+  intros Hl Ht E. rewrite (abs_base ft fv), (abs_base ft (VList _)) in E.
+  assert (Hpos: forall cs ys, Forall2 aeq (map (abs t) (map VAny cs)) (map (abs t) ys) ->
+             Forall2 (fun ch y => octets_of y = Some ch) cs ys).
+  { intros cs ys H. rewrite map_map in H. apply Forall2_map_both in H.
+    eapply Forall2_imp; [|exact H]. intros ch y Hy. cbn beta in Hy.
+    rewrite (abs_any_VAny t ch Ht) in Hy. apply aeq_sym in Hy. apply aeq_to_leaf in Hy; [|exact I].
+    exact (abs_any_octets_eq t y ch Ht Hy). }
+  destruct (list_elem_base ft t Hl) as [Hb|Hb]; rewrite Hb in E; cbn [abs] in E.
+  - apply aeq_to_list in E. destruct E as (xs & Hx & HF).
+    destruct fv; cbn [abs] in Hx; try discriminate Hx. inversion Hx; subst xs; clear Hx.
+    exists xs0, chunks. split; [reflexivity|]. split; [apply Permutation_refl|]. split; [reflexivity|]. exact (Hpos chunks xs0 HF).
+  - apply aeq_to_bag in E. destruct E as (xs & zs & Hx & Hperm & HF).
+    destruct fv; cbn [abs] in Hx; try discriminate Hx. inversion Hx; subst xs; clear Hx.
+    rewrite map_map in Hperm. apply Permutation_sym in Hperm.
+    destruct (Permutation_map_inv _ _ Hperm) as (chunks' & Hz & Hp'). subst zs.
+    exists xs0, chunks'. split; [reflexivity|]. split; [exact Hp'|]. split; [intros Hc; rewrite Hc in Hb; discriminate Hb|].
+    apply Hpos. rewrite map_map. exact HF.
+Qed.
+
+Lemma list_member_pos_eq ft t fv chunks :
+  list_elem ft = Some t -> is_any t = true ->
+  abs ft fv = abs ft (VList (map VAny chunks)) ->
+  exists ys, fv = VList ys /\ Forall2 (fun ch y => octets_of y = Some ch) chunks ys.
+Proof.
+  intros Hl Ht E. rewrite (abs_base ft fv), (abs_base ft (VList _)) in E.
+  assert (Hpos: forall ys, map (abs t) ys = map (abs t) (map VAny chunks) ->
+             Forall2 (fun ch y => octets_of y = Some ch) chunks ys).
+  { intros ys H. rewrite map_map in H.
+    assert (HF: Forall2 eq (map (fun ch => abs t (VAny ch)) chunks) (map (abs t) ys)) by (rewrite H; apply Forall2_refl; reflexivity).
+    apply Forall2_map_both in HF. eapply Forall2_imp; [|exact HF]. intros ch y Hy. cbn beta in Hy.
+    rewrite (abs_any_VAny t ch Ht) in Hy. exact (abs_any_octets_eq t y ch Ht (eq_sym Hy)). }
+  destruct (list_elem_base ft t Hl) as [Hb|Hb]; rewrite Hb in E; cbn [abs] in E;
+    destruct fv; cbn [abs] in E; try discriminate E; inversion E as [E']; exists xs; split; try reflexivity; exact (Hpos xs E').
+Qed.
+
+Lemma resolve_elems_pos c allow E : forall chunks ys ws,
+  Forall2 (fun ch y => octets_of y = Some ch) chunks ys ->
+  Forall (fun ch => no_eoo_prefix ch = true) chunks ->
+  Forall2 (fun ch w => decode c (Some E) ch = Ok (DV E w, [])) chunks ws ->
+  resolve_elems c allow E ys = Ok ws.
+Proof.
+  induction chunks as [|ch chunks IH]; intros ys ws H1 H2 H3; inversion H1; subst; inversion H3; subst; [reflexivity|].
+  inversion H2; subst. cbn [resolve_elems].
+  match goal with Ho: octets_of _ = Some ch |- _ => rewrite Ho end.
+  rewrite (decode_eoo_any c allow (Some E) ch) by assumption.
+  match goal with Hd: decode c (Some E) ch = _ |- _ => rewrite Hd end. cbn [bind fst].
+  rewrite (IH _ _ ltac:(eassumption) ltac:(eassumption) ltac:(eassumption)). reflexivity.
+Qed.
+
+(* the member of the first-pass record, against the member that was sent *)
+Lemma first_pass_member T fs oi p ft vs y v' :
+  rec_fields T = Some fs -> nth_error fs oi = Some (p, ft) -> not_def p -> (oi < length vs)%nat ->
+  aeq (abs T v') (abs T (VRec (set_nth oi (Some y) vs))) ->
+  exists vs' fv, v' = VRec vs' /\ nth oi vs' None = Some fv /\ aeq (abs ft fv) (abs ft y) /\
+    (abs T v' = abs T (VRec (set_nth oi (Some y) vs)) -> abs ft fv = abs ft y).
+Proof.
+  intros Hrec Hoi Hp Hlen E. rewrite (abs_record T fs _ Hrec) in E.
+  destruct (aeq_to_rec _ _ E) as (xs & Hx & HF).
+  destruct (abs_is_rec T fs v' xs Hrec Hx) as [vs' ->].
+  rewrite (abs_record T fs _ Hrec) in Hx. inversion Hx; subst xs; clear Hx.
+  assert (Hn: nth oi (OpenType.abs_fields fs (set_nth oi (Some y) vs)) None = Some (abs ft y))
+    by (eapply abs_fields_nth_set; eauto).
+  destruct (opt_rel_nth _ _ HF _ _ Hn) as [a' [Ha' Ea']].
+  destruct (nth oi vs' None) as [fv|] eqn:Hfv;
+    [|rewrite (abs_fields_nth_none fs vs' oi p ft Hoi Hp Hfv) in Ha'; discriminate].
+  rewrite (abs_fields_nth fs vs' oi p ft fv Hoi Hfv) in Ha'. inversion Ha'; subst a'.
+  exists vs', fv. split; [reflexivity|]. split; [exact Hfv|]. split; [exact Ea'|].
+  intros Heq. rewrite !(abs_record T fs _ Hrec) in Heq. inversion Heq as [Heq'].
+  pose proof (abs_fields_nth fs vs' oi p ft fv Hoi Hfv) as H1. rewrite Heq', Hn in H1. inversion H1. reflexivity.
+Qed.
+
+Lemma build_ws {X} (P: bytes -> val -> Prop) (Q: val -> X -> Prop) (enc1: X -> bytes -> Prop) : forall xs chunks,
+  Forall2 enc1 xs chunks ->
+  (forall x ch, In x xs -> enc1 x ch -> exists w, P ch w /\ Q w x) ->
+  exists ws0, Forall2 P chunks ws0 /\ Forall2 Q ws0 xs.
+Proof.
+  induction 1 as [|x ch xs chunks Hx HF IH]; intros Hall; [exists []; split; constructor|].
+  destruct (Hall x ch (or_introl eq_refl) Hx) as (w & Hp & Hq).
+  destruct (IH (fun x0 ch0 Hin He => Hall x0 ch0 (or_intror Hin) He)) as (ws0 & H1 & H2).
+  exists (w :: ws0). split; constructor; assumption.
+Qed.
+
+Section OpenListRecord.
+  Variables (ce cd: codec) (d: bool) (k: N) (srt: bool).
+  Hypothesis Hmode : mode_ok ce cd d k.
+  Variables (T: ty) (fs: list (presence * ty)) (gi oi: nat) (p: presence) (ft t: ty) (pg: presence) (gT: ty).
+  Hypothesis Hty : stage3_ty srt ce T = true.
+  Hypothesis Hf01 : d = false -> no_f01 T = true.
+  Hypothesis Hrec : rec_fields T = Some fs.
+  Hypothesis Hoi : nth_error fs oi = Some (p, ft).
+  Hypothesis Hgi : nth_error fs gi = Some (pg, gT).
+  Hypothesis Hlist : list_elem ft = Some t.
+  Hypothesis Hany : is_any t = true.
+  Hypothesis Hp : not_def p.
+  Hypothesis Hpg : not_def pg.
+  Hypothesis Hne : gi <> oi.
+  Variables (vs: list (option val)) (g: val).
+  Hypothesis Hvs : hole_val ce cd d T oi vs = true.
+  Hypothesis Hg : nth gi vs None = Some g.
+  Hypothesis Hgok : gov_ok gT g = true.
+  Variables (E: ty) (xs: list val).
+  Hypothesis Hinners : Forall (inner_ok ce cd srt d k t) (map (fun x => (E, x)) xs).
+  Hypothesis Hkept : is_opt p = true -> omits ce = true -> xs <> [].
+  Hypothesis Hif01 : d = false -> no_f01 E = true.
+  Hypothesis Hianys : d = false -> forall x, In x xs -> anys_ok E x = true.
+  Variable wire : bytes.
+  Hypothesis Henc : enc_open ce d k T oi (VRec vs) true (map (fun x => (E, x)) xs) = Ok wire.
+  Hypothesis Hmax : N.of_nat (length wire) <= index_max.
+
+  Theorem open_resolved_list_record : forall dflt override dot,
+    (dot = true \/ override <> []) -> resolve_type override dflt g = Some E ->
+    exists rv,
+      dec_open cd T gi oi dflt override dot wire = Ok (DV (subst_field T oi (retype_list ft E)) rv, []) /\
+      aeq (abs (subst_field T oi (retype_list ft E)) rv)
+          (abs (subst_field T oi (retype_list ft E)) (VRec (set_nth oi (Some (VList xs)) vs))) /\
+      (srt = false -> abs (subst_field T oi (retype_list ft E)) rv
+                      = abs (subst_field T oi (retype_list ft E)) (VRec (set_nth oi (Some (VList xs)) vs))).
+  Proof.
+    intros dflt override dot Hon Hmap.
+    pose proof (hole_len_l ce cd d T fs oi Hrec vs Hvs) as Hlen.
+    assert (Hkept': is_opt p = true -> omits ce = true -> map (fun x => (E, x)) xs <> []).
+    { intros H1 H2 H3. apply (Hkept H1 H2). destruct xs; [reflexivity|discriminate H3]. }
+    destruct (open_first_pass_list ce cd d k srt Hmode T fs oi p ft t Hty Hf01 Hrec Hoi Hlist Hany Hp vs Hvs _ Hinners Hkept' wire Henc Hmax)
+      as (chunks & v' & HF2 & Htlv & Hplain & Hdec & Haeq & Heq).
+    (* the inner values against the chunks *)
+    assert (HF2': Forall2 (fun x ch => encode ce d k E x = Ok ch) xs chunks).
+    { rewrite <- (map_id chunks) in HF2. apply Forall2_map_both in HF2. exact HF2. }
+    destruct (build_ws (fun ch w => decode cd (Some E) ch = Ok (DV E w, []))
+                (fun w x => aeq (abs E w) (abs E x) /\ (srt = false -> abs E w = abs E x))
+                (fun x ch => encode ce d k E x = Ok ch) xs chunks HF2') as (ws0 & Hdec0 & Hrel0).
+    { intros x ch Hx He. rewrite Forall_forall in Hinners.
+      destruct (Hinners (E, x) (in_map _ _ _ Hx)) as (H1 & H2 & _ & _). cbn [fst snd] in H1, H2.
+      assert (Hc: In ch chunks).
+      { clear - HF2' Hx He. induction HF2' as [|x0 c0 l1 l2 H0 HF IH]; [destruct Hx|].
+        destruct Hx as [->|Hx]; [left; congruence|right; exact (IH Hx)]. }
+      assert (Hcmax: N.of_nat (length ch) <= index_max).
+      { pose proof (chunks_in_wire ce d k T fs oi p ft t vs chunks wire (mode_stable ce cd d k Hmode) Hrec Hoi Hp Hlist Hany
+                      Hlen Hplain ch Hc). lia. }
+      destruct (codec_rt ce cd d k srt Hmode E x ch H1 Hif01 H2 (fun Hd => Hianys Hd x Hx) He Hcmax) as (w & Hdw & Haw & Hew).
+      exists w. auto. }
+    (* the first-pass record *)
+    destruct (first_pass_facts_list_a T fs gi oi p ft t gT pg Hrec Hoi Hgi Hlist Hany Hp Hpg vs g chunks Hg Hgok Hne Hlen v' Haeq)
+      as (vs' & ys & -> & Hfv & _ & _ & Hg').
+    destruct (first_pass_member T fs oi p ft vs (VList (map VAny chunks)) (VRec vs') Hrec Hoi Hp Hlen Haeq)
+      as (vs2 & fv & Hv2 & Hfv2 & Hma & Hme).
+    inversion Hv2; subst vs2. rewrite Hfv in Hfv2. inversion Hfv2; subst fv. clear Hv2 Hfv2.
+    pose proof (nth_some_lt vs' oi _ Hfv) as Hl'.
+    (* the elements, positionally *)
+    assert (Hpos: exists chunks', Permutation chunks chunks' /\ Forall2 (fun ch y => octets_of y = Some ch) chunks' ys /\
+              ((base_of ft = TSeqOf t \/ srt = false) -> chunks' = chunks)).
+    { destruct srt eqn:Es.
+      - destruct (list_member_pos ft t (VList ys) chunks Hlist Hany Hma) as (ys2 & chunks' & Hy & Hp' & Hseq & Hpo).
+        inversion Hy; subst ys2. exists chunks'. split; [exact Hp'|]. split; [exact Hpo|].
+        intros [H|H]; [exact (Hseq H)|discriminate H].
+      - destruct (list_member_pos_eq ft t (VList ys) chunks Hlist Hany (Hme (Heq eq_refl))) as (ys2 & Hy & Hpo).
+        inversion Hy; subst ys2. exists chunks. split; [apply Permutation_refl|]. split; [exact Hpo|]. intros _. reflexivity. }
+    destruct Hpos as (chunks' & Hperm & Hpo & Hsame).
+    destruct (Forall2_perm_left _ _ _ Hperm ws0 Hdec0) as (ws & Hpw & Hdecw).
+    assert (Hpre: Forall (fun ch => no_eoo_prefix ch = true) chunks').
+    { apply Forall_forall. intros ch Hc. rewrite Forall_forall in Htlv.
+      exact (tlv_no_eoo_prefix ch (Htlv ch (Permutation_in ch (Permutation_sym Hperm) Hc))). }
+    set (allow := own_len_indef (length (tagset_of' T) - 1) wire).
+    pose proof (resolve_elems_pos cd allow E chunks' ys ws Hpo Hpre Hdecw) as Hres.
+    exists (VRec (set_nth oi (Some (VList ws)) vs')).
+    assert (Hd: dec_open cd T gi oi dflt override dot wire
+                = Ok (DV (subst_field T oi (retype_list ft E)) (VRec (set_nth oi (Some (VList ws)) vs')), [])).
+    { unfold dec_open, dec_open_after. rewrite Hdec. cbn [bind].
+      assert (Hr: (dot || match override with [] => false | _ :: _ => true end) = true).
+      { destruct Hon as [-> | Hov]; [reflexivity|]. destruct override; [congruence|]. apply Bool.orb_true_r. }
+      rewrite Hr. cbn [negb]. cbv iota. rewrite Hrec.
+      unfold second_pass. rewrite Hoi, Hfv, Hg', Hmap, Hlist. fold allow. rewrite Hres. reflexivity. }
+    split; [exact Hd|].
+    (* the abstract content of the resolved member *)
+    set (X := retype_list ft E).
+    assert (Hrel: aeq (abs X (VList ws)) (abs X (VList xs)) /\ (srt = false -> abs X (VList ws) = abs X (VList xs))).
+    { destruct (retype_list_base ft t E Hlist) as [Hq1 Hq2].
+      assert (Ha0: Forall2 aeq (map (abs E) ws0) (map (abs E) xs)).
+      { apply Forall2_map_both'. eapply Forall2_imp; [|exact Hrel0]. intros w x [H _]. exact H. }
+      assert (He0: srt = false -> map (abs E) ws0 = map (abs E) xs).
+      { intros Hs. clear - Hrel0 Hs. induction Hrel0 as [|w x l1 l2 [_ H] _ IH]; [reflexivity|]. cbn [map]. rewrite (H Hs), IH. reflexivity. }
+      rewrite (abs_base X (VList ws)), (abs_base X (VList xs)).
+      destruct (list_elem_base ft t Hlist) as [Hb|Hb].
+      - (* SEQUENCE OF: in order *)
+        assert (Hws: ws = ws0).
+        { rewrite (Hsame (or_introl Hb)) in Hdecw. clear - Hdecw Hdec0. revert ws Hdecw.
+          induction Hdec0 as [|ch w l1 l2 H0 _ IH]; intros ws Hw; inversion Hw; subst; [reflexivity|].
+          f_equal; [congruence|]. apply IH. assumption. }
+        subst ws. unfold X. rewrite (Hq1 Hb). cbn [abs]. split; [apply aeq_list; exact Ha0|].
+        intros Hs. rewrite (He0 Hs). reflexivity.
+      - (* SET OF: as a multiset *)
+        unfold X. rewrite (Hq2 Hb). cbn [abs]. split.
+        + apply (aeq_bag _ _ (map (abs E) ws0)); [apply Permutation_map; apply Permutation_sym; exact Hpw|exact Ha0].
+        + intros Hs.
+          assert (Hws: ws = ws0).
+          { rewrite (Hsame (or_intror Hs)) in Hdecw. clear - Hdecw Hdec0. revert ws Hdecw.
+            induction Hdec0 as [|ch w l1 l2 H0 _ IH]; intros ws Hw; inversion Hw; subst; [reflexivity|].
+            f_equal; [congruence|]. apply IH. assumption. }
+          subst ws. rewrite (He0 Hs). reflexivity. }
+    destruct Hrel as [Hra Hre]. split.
+    - exact (record_subst_aeq T fs oi p ft vs' vs _ X (VList ws) (VList xs) Hrec Hoi Hl' Hlen Haeq Hra).
+    - intros Hs. exact (record_subst_eq T fs oi p ft vs' vs _ X (VList ws) (VList xs) Hrec Hoi Hl' Hlen (Heq Hs) (Hre Hs)).
+  Qed.
+End OpenListRecord.
+
+(* ====================================================================================================== *)
+(* Part 8b.  The governing member declared DEFAULT (or OPTIONAL): the decoder of Model/OpenTypeDef.v
+   ([dec_open_d]: resolves by the declared default when the governing member is not in the encoding - every
+   encoder leaves it out when its value equals the default).  [g] is the governing value of the
+   specification: the explicit one, else the default ([effective_gov]). *)
+
+Lemma abs_fields_nth_def : forall fs vs i dv ft,
+  nth_error fs i = Some (Def dv, ft) -> nth i vs None = None ->
+  nth i (OpenType.abs_fields fs vs) None = Some (abs ft dv).
+Proof.
+  induction fs as [|[q gt] fs IH]; intros vs i dv ft Hf Hv.
+  - destruct i; discriminate.
+  - destruct vs as [|ov vs].
+    + destruct i as [|i]; cbn [nth_error] in Hf; cbn [OpenType.abs_fields nth].
+      * inversion Hf; subst. reflexivity.
+      * apply IH; [exact Hf|destruct i; reflexivity].
+    + destruct i as [|i]; cbn [nth_error nth] in *; cbn [OpenType.abs_fields nth].
+      * inversion Hf; subst. reflexivity.
+      * apply IH; assumption.
+Qed.
+
+Lemma val_of_rec_length T fs vs : rec_fields T = Some fs -> val_of T (VRec vs) = true -> length vs = length fs.
+Proof.
+  intros Hrec Hv. rewrite val_of_base in Hv.
+  assert (H: forall fs vs,
+            (fix go (fs: list (presence * ty)) (vs: list (option val)) : bool :=
+               match fs, vs with
+               | [], [] => true
+               | (p, t) :: fs', ov :: vs' =>
+                   (match ov with Some x => val_of t x | None => match p with Req => false | _ => true end end) && go fs' vs'
+               | _, _ => false
+               end) fs vs = true -> length vs = length fs).
+  { induction fs0 as [|[q gt] fs0 IH]; intros [|ov vs0] H; try discriminate H; [reflexivity|].
+    apply Bool.andb_true_iff in H. cbn [length]. f_equal. exact (IH vs0 (proj2 H)). }
+  destruct (rec_fields_base T fs Hrec) as [E|E]; rewrite E in Hv; exact (H fs vs Hv).
+Qed.
+
+(* storing the governing value the decoder read (explicit, or the default) does not change the abstract content *)
+Lemma abs_fields_store_gov : forall gi fs vs pg gT g,
+  nth_error fs gi = Some (pg, gT) -> gov_value fs gi vs = Ok g -> (gi < length vs)%nat ->
+  OpenType.abs_fields fs (set_nth gi (Some g) vs) = OpenType.abs_fields fs vs.
+Proof.
+  unfold gov_value.
+  induction gi as [|j IH]; intros fs0 vs0 pg gT g Hgi0 Hgv0 Hgl0; destruct fs0 as [|[q t0] fs0]; try discriminate Hgi0;
+    destruct vs0 as [|ov vs0]; try (cbn [length] in Hgl0; lia); cbn [nth_error nth] in *; cbn [set_nth];
+    rewrite !abs_fields_cons2.
+  - inversion Hgi0; subst q t0. destruct ov as [g0|].
+    + inversion Hgv0; subst g0. reflexivity.
+    + destruct pg; try discriminate Hgv0. inversion Hgv0; subst. reflexivity.
+  - f_equal. cbn [length] in Hgl0. apply (IH fs0 vs0 pg gT g Hgi0 Hgv0). lia.
+Qed.
+
+Section ScalarD.
+  Variables (c: codec) (T: ty) (fs: list (presence * ty)) (gi oi: nat).
+  Variables (p: presence) (ft gT: ty) (pg: presence).
+  Hypothesis Hrec : rec_fields T = Some fs.
+  Hypothesis Hoi : nth_error fs oi = Some (p, ft).
+  Hypothesis Hgi : nth_error fs gi = Some (pg, gT).
+  Hypothesis Hany : is_any ft = true.
+  Hypothesis Hp : not_def p.
+  Hypothesis Hfrag : frag T = true.
+  Variables (vs: list (option val)) (g: val) (chunk: bytes).
+  Hypothesis Hg : effective_gov pg (nth gi vs None) = Some g.
+  Hypothesis Hgok : gov_ok gT g = true.
+  Hypothesis Hne : gi <> oi.
+  Hypothesis Hlen : (oi < length vs)%nat.
+
+  Let sent := VRec (set_nth oi (Some (VAny chunk)) vs).
+
+  Variables (wire: bytes) (v': val).
+  Hypothesis Hfirst : decode c (Some T) wire = Ok (DV T v', []).
+  Hypothesis Hobs : aeq (abs T v') (abs T sent).
+
+  Lemma first_pass_facts_d :
+    exists vs', v' = VRec vs' /\ length vs' = length fs /\
+      (exists fv, nth oi vs' None = Some fv /\ octets_of fv = Some chunk) /\
+      gov_value fs gi vs' = Ok g.
+  Proof.
+    pose proof Hobs as E. unfold sent in E. rewrite (abs_record T fs _ Hrec) in E.
+    destruct (aeq_to_rec _ _ E) as (xs & Hx & HF).
+    destruct (abs_is_rec T fs v' xs Hrec Hx) as [vs' ->].
+    rewrite (abs_record T fs _ Hrec) in Hx. inversion Hx; subst xs; clear Hx.
+    exists vs'. split; [reflexivity|]. split.
+    { destruct (accepted_is_well_formed_decode c T wire _ [] Hfrag Hfirst) as (v0 & Hv0 & Hval & _).
+      inversion Hv0; subst v0. exact (val_of_rec_length T fs vs' Hrec Hval). }
+    split.
+    - assert (Hn: nth oi (OpenType.abs_fields fs (set_nth oi (Some (VAny chunk)) vs)) None = Some (abs ft (VAny chunk)))
+        by (eapply abs_fields_nth_set; eauto).
+      destruct (opt_rel_nth _ _ HF _ _ Hn) as [a' [Ha' Ea']].
+      rewrite (abs_any_VAny ft chunk Hany) in Ea'.
+      apply aeq_to_leaf in Ea'; [|exact I]. subst a'.
+      destruct (nth oi vs' None) as [fv|] eqn:Hfv.
+      + exists fv. split; [reflexivity|].
+        rewrite (abs_fields_nth fs vs' oi p ft fv Hoi Hfv) in Ha'. inversion Ha' as [Ha2].
+        exact (abs_any_octets_eq ft fv chunk Hany Ha2).
+      + rewrite (abs_fields_nth_none fs vs' oi p ft Hoi Hp Hfv) in Ha'. discriminate.
+    - assert (Hgs: nth gi (set_nth oi (Some (VAny chunk)) vs) None = nth gi vs None)
+        by (rewrite nth_set_nth_other; auto).
+      assert (Hn: nth gi (OpenType.abs_fields fs (set_nth oi (Some (VAny chunk)) vs)) None = Some (abs gT g)).
+      { unfold effective_gov in Hg. destruct (nth gi vs None) as [g0|] eqn:Eg.
+        - inversion Hg; subst g0. apply (abs_fields_nth fs _ gi pg gT g Hgi). rewrite Hgs. reflexivity.
+        - destruct pg as [| |dv]; try discriminate Hg. inversion Hg; subst dv.
+          apply (abs_fields_nth_def fs _ gi g gT Hgi). exact Hgs. }
+      destruct (opt_rel_nth _ _ HF _ _ Hn) as [a' [Ha' Ea']].
+      apply aeq_to_leaf in Ea'; [|exact (gov_leaf gT g Hgok)]. subst a'.
+      unfold gov_value. destruct (nth gi vs' None) as [g'|] eqn:Hg'.
+      + rewrite (abs_fields_nth fs vs' gi pg gT g' Hgi Hg') in Ha'. inversion Ha' as [Ha2].
+        f_equal. exact (abs_gov_eq gT g g' Hgok Ha2).
+      + rewrite Hgi. destruct pg as [| |dv].
+        * rewrite (abs_fields_nth_none fs vs' gi Req gT Hgi I Hg') in Ha'. discriminate.
+        * rewrite (abs_fields_nth_none fs vs' gi Opt gT Hgi I Hg') in Ha'. discriminate.
+        * rewrite (abs_fields_nth_def fs vs' gi dv gT Hgi Hg') in Ha'. inversion Ha' as [Ha2].
+          f_equal. exact (abs_gov_eq gT g dv Hgok Ha2).
+  Qed.
+
+  Variables (dflt override: omap) (dot: bool).
+
+  (* the record the second pass works on: the governing value read (and stored) *)
+  Lemma raw_d :
+    (dot = false /\ override = []) \/ resolve_type override dflt g = None ->
+    exists vs' fv, abs T (VRec vs') = abs T v' /\
+                   dec_open_d c T gi oi dflt override dot wire = Ok (DV T (VRec vs'), [])
+                   /\ nth oi vs' None = Some fv /\ octets_of fv = Some chunk.
+  Proof.
+    intros Hoff. destruct first_pass_facts_d as (vs' & -> & Hlen' & (fv & Hfv & Ho) & Hgv).
+    assert (Hgl: (gi < length vs')%nat).
+    { rewrite Hlen'. apply nth_error_Some. rewrite Hgi. discriminate. }
+    unfold dec_open_d, dec_open_after_d. rewrite Hfirst. cbn [bind].
+    destruct (negb (dot || match override with [] => false | _ :: _ => true end)) eqn:Eres.
+    - exists vs', fv. auto.
+    - destruct Hoff as [[-> ->] | Hun]; [discriminate Eres|].
+      rewrite Hrec. unfold second_pass_d. rewrite Hoi, Hfv, Hgv. cbn [bind].
+      unfold second_pass. rewrite Hoi, (nth_set_nth_other _ vs' oi gi (Some g) None (fun E => Hne (eq_sym E))), Hfv.
+      rewrite (nth_set_nth_same _ vs' gi (Some g) None Hgl), Hun. cbn [bind fst snd].
+      exists (set_nth gi (Some g) vs'), fv. split; [|split; [reflexivity|split; [|exact Ho]]].
+      + rewrite !(abs_record T fs _ Hrec), (abs_fields_store_gov gi fs vs' pg gT g Hgi Hgv Hgl). reflexivity.
+      + rewrite nth_set_nth_other; [exact Hfv|]. intros E. apply Hne. symmetry. exact E.
+  Qed.
+
+  Lemma resolved_d : forall E w,
+    (dot = true \/ override <> []) ->
+    resolve_type override dflt g = Some E ->
+    no_eoo_prefix chunk = true ->
+    decode c (Some E) chunk = Ok (DV E w, []) ->
+    exists vs', abs T (VRec vs') = abs T v' /\ (oi < length vs')%nat /\
+      dec_open_d c T gi oi dflt override dot wire
+        = Ok (DV (subst_field T oi E) (VRec (set_nth oi (Some w) vs')), []).
+  Proof.
+    intros E w Hon Hmap Hpre Hin.
+    destruct first_pass_facts_d as (vs' & -> & Hlen' & (fv & Hfv & Ho) & Hgv).
+    assert (Hgl: (gi < length vs')%nat).
+    { rewrite Hlen'. apply nth_error_Some. rewrite Hgi. discriminate. }
+    pose proof (abs_fields_store_gov gi fs vs' pg gT g Hgi Hgv Hgl) as Habs.
+    exists (set_nth gi (Some g) vs'). split; [|split].
+    - rewrite !(abs_record T fs _ Hrec), Habs. reflexivity.
+    - rewrite RoundTrip3d.set_nth_length. exact (nth_some_lt vs' oi fv Hfv).
+    - unfold dec_open_d, dec_open_after_d. rewrite Hfirst. cbn [bind].
+      assert (Hr: (dot || match override with [] => false | _ :: _ => true end) = true).
+      { destruct Hon as [-> | Hov]; [reflexivity|]. destruct override; [congruence|]. apply Bool.orb_true_r. }
+      rewrite Hr. cbn [negb]. cbv iota. rewrite Hrec.
+      unfold second_pass_d. rewrite Hoi, Hfv, Hgv. cbn [bind].
+      unfold second_pass. rewrite Hoi, (nth_set_nth_other _ vs' oi gi (Some g) None (fun E0 => Hne (eq_sym E0))), Hfv.
+      rewrite (nth_set_nth_same _ vs' gi (Some g) None Hgl), Hmap, (list_elem_any ft Hany), Ho.
+      rewrite (decode_eoo_any c _ (Some E) chunk Hpre), Hin. reflexivity.
+  Qed.
+End ScalarD.
+
+
+Section OpenScalarD.
+  Variables (ce cd: codec) (d: bool) (k: N) (srt: bool).
+  Hypothesis Hmode : mode_ok ce cd d k.
+  Variables (T: ty) (fs: list (presence * ty)) (gi oi: nat) (p: presence) (ft: ty) (pg: presence) (gT: ty).
+  Hypothesis Hty : stage3_ty srt ce T = true.
+  Hypothesis Hfrag : frag T = true.
+  Hypothesis Hf01 : d = false -> no_f01 T = true.
+  Hypothesis Hrec : rec_fields T = Some fs.
+  Hypothesis Hoi : nth_error fs oi = Some (p, ft).
+  Hypothesis Hgi : nth_error fs gi = Some (pg, gT).
+  Hypothesis Hany : is_any ft = true.
+  Hypothesis Hp : not_def p.
+  Hypothesis Hne : gi <> oi.
+  Hypothesis Hkeep : keeps_order ce T \/ ce = DER.
+  Variables (vs: list (option val)) (g: val).
+  Hypothesis Hvs : hole_val ce cd d T oi vs = true.
+  (* the governing value: the one in the record, else the declared default *)
+  Hypothesis Hg : effective_gov pg (nth gi vs None) = Some g.
+  Hypothesis Hgok : gov_ok gT g = true.
+  Variables (Ti: ty) (xi: val).
+  Hypothesis Hti : stage3_ty srt ce Ti = true.
+  Hypothesis Hxi : stage3_val ce cd Ti xi = true.
+  Hypothesis Hblob : holds_blob ft Ti = false.
+  Hypothesis Hkept : inner_kept ce p Ti xi.
+  Hypothesis Hidef : d = false -> inner_definite ce d k Ti xi.
+  Variable wire : bytes.
+  Hypothesis Henc : enc_open ce d k T oi (VRec vs) true [(Ti, xi)] = Ok wire.
+  Hypothesis Hmax : N.of_nat (length wire) <= index_max.
+
+  Theorem open_raw_d : forall dflt override dot,
+    (dot = false /\ override = []) \/ resolve_type override dflt g = None ->
+    exists chunk vs' fv,
+      encode ce d k Ti xi = Ok chunk /\
+      dec_open_d cd T gi oi dflt override dot wire = Ok (DV T (VRec vs'), []) /\
+      nth oi vs' None = Some fv /\ octets_of fv = Some chunk /\
+      aeq (abs T (VRec vs')) (abs T (VRec (set_nth oi (Some (VAny chunk)) vs))) /\
+      (srt = false -> abs T (VRec vs') = abs T (VRec (set_nth oi (Some (VAny chunk)) vs))).
+  Proof.
+    intros dflt override dot Hoff.
+    destruct (open_first_pass ce cd d k srt Hmode T fs oi p ft Hty Hf01 Hrec Hoi Hany Hp Hkeep vs Hvs Ti xi Hti Hxi Hblob
+                Hkept Hidef wire Henc Hmax) as (chunk & v' & Hchunk & Htlv & _ & Hdec & Haeq & Heq).
+    destruct (raw_d cd T fs gi oi p ft gT pg Hrec Hoi Hgi Hany Hp Hfrag vs g chunk Hg Hgok Hne
+                (hole_len ce cd d T fs oi Hrec vs Hvs) wire v' Hdec Haeq dflt override dot Hoff) as (vs' & fv & Habs & Hd & Hn & Ho).
+    exists chunk, vs', fv. repeat (split; [assumption|]). split; [rewrite Habs; exact Haeq|].
+    intros Hs. rewrite Habs. exact (Heq Hs).
+  Qed.
+
+  Hypothesis Hif01 : d = false -> no_f01 Ti = true.
+  Hypothesis Hianys : d = false -> anys_ok Ti xi = true.
+
+  Theorem open_resolved_d : forall dflt override dot,
+    (dot = true \/ override <> []) -> resolve_type override dflt g = Some Ti ->
+    exists rv,
+      dec_open_d cd T gi oi dflt override dot wire = Ok (DV (subst_field T oi Ti) rv, []) /\
+      aeq (abs (subst_field T oi Ti) rv) (abs (subst_field T oi Ti) (VRec (set_nth oi (Some xi) vs))) /\
+      (srt = false -> abs (subst_field T oi Ti) rv = abs (subst_field T oi Ti) (VRec (set_nth oi (Some xi) vs))).
+  Proof.
+    intros dflt override dot Hon Hmap.
+    pose proof (hole_len ce cd d T fs oi Hrec vs Hvs) as Hlen.
+    destruct (open_first_pass ce cd d k srt Hmode T fs oi p ft Hty Hf01 Hrec Hoi Hany Hp Hkeep vs Hvs Ti xi Hti Hxi Hblob
+                Hkept Hidef wire Henc Hmax) as (chunk & v' & Hchunk & Htlv & Hcw & Hdec & Haeq & Heq).
+    assert (Hcmax: N.of_nat (length chunk) <= index_max) by lia.
+    destruct (codec_rt ce cd d k srt Hmode Ti xi chunk Hti Hif01 Hxi Hianys Hchunk Hcmax) as (w & Hdw & Haw & Hew).
+    destruct (resolved_d cd T fs gi oi p ft gT pg Hrec Hoi Hgi Hany Hp Hfrag vs g chunk Hg Hgok Hne Hlen wire v' Hdec Haeq
+                dflt override dot Ti w Hon Hmap (tlv_no_eoo_prefix chunk Htlv) Hdw) as (vs' & Habs & Hl' & Hd).
+    exists (VRec (set_nth oi (Some w) vs')). split; [exact Hd|]. split.
+    - apply (record_subst_aeq T fs oi p ft vs' vs (VAny chunk) Ti w xi Hrec Hoi Hl' Hlen); [rewrite Habs; exact Haeq|exact Haw].
+    - intros Hs. apply (record_subst_eq T fs oi p ft vs' vs (VAny chunk) Ti w xi Hrec Hoi Hl' Hlen); [rewrite Habs; exact (Heq Hs)|exact (Hew Hs)].
+  Qed.
+End OpenScalarD.
+
+(* ====================================================================================================== *)
+(* Part 8c.  The OPTIONAL open member left out ([present] = false): nothing to resolve - the second pass leaves the
+   record alone whatever the maps say. *)
+
+Lemma sv3_fill_none ce cd : forall oi fs vs ft,
+  sv3_hole ce cd oi fs vs = true -> nth_error fs oi = Some (Opt, ft) ->
+  sv3_fields ce cd fs (set_nth oi None vs) = true.
+Proof.
+  induction oi as [|j IH]; intros fs vs ft Hh Hn; destruct fs as [|[q gt] fs]; try discriminate Hn;
+    destruct vs as [|ov vs]; try discriminate Hh; cbn [nth_error] in Hn; cbn [sv3_hole] in Hh; cbn [set_nth].
+  - inversion Hn; subst q gt. rewrite sv3_fields_cons, Hh. reflexivity.
+  - apply Bool.andb_true_iff in Hh. destruct Hh as [H0 Hh]. rewrite sv3_fields_cons, H0. cbn [andb].
+    exact (IH fs vs ft Hh Hn).
+Qed.
+
+Lemma anys_fill_none : forall oi fs vs p ft,
+  anys_hole oi fs vs = true -> nth_error fs oi = Some (p, ft) -> anys_fields fs (set_nth oi None vs) = true.
+Proof.
+  induction oi as [|j IH]; intros fs vs p ft Hh Hn; destruct fs as [|[q gt] fs]; try discriminate Hn;
+    destruct vs as [|ov vs]; try reflexivity; cbn [nth_error] in Hn; cbn [anys_hole] in Hh; cbn [set_nth].
+  - rewrite anys_fields_cons, Hh. reflexivity.
+  - apply Bool.andb_true_iff in Hh. destruct Hh as [H0 Hh]. rewrite anys_fields_cons, H0. cbn [andb].
+    exact (IH fs vs p ft Hh Hn).
+Qed.
+
+Lemma opt_rel_nth_none (l1 l2: list (option aval)) : Forall2 (RoundTrip3.opt_rel aeq) l1 l2 ->
+  forall i, nth i l2 None = None -> nth i l1 None = None.
+Proof.
+  induction 1 as [|x y l1 l2 Hxy HF IH]; intros i Hn; [destruct i; reflexivity|].
+  destruct i as [|i]; cbn [nth] in *; [subst y; inversion Hxy; reflexivity|exact (IH i Hn)].
+Qed.
+
+Theorem open_absent ce cd d k srt T fs gi oi ft vs inners wire dflt override dot :
+  mode_ok ce cd d k -> stage3_ty srt ce T = true -> (d = false -> no_f01 T = true) ->
+  rec_fields T = Some fs -> nth_error fs oi = Some (Opt, ft) ->
+  hole_val ce cd d T oi vs = true ->
+  enc_open ce d k T oi (VRec vs) false inners = Ok wire -> N.of_nat (length wire) <= index_max ->
+  exists vs', dec_open cd T gi oi dflt override dot wire = Ok (DV T (VRec vs'), []) /\ nth oi vs' None = None /\
+    aeq (abs T (VRec vs')) (abs T (VRec (set_nth oi None vs))) /\
+    (srt = false -> abs T (VRec vs') = abs T (VRec (set_nth oi None vs))).
+Proof.
+  intros Hmode Hty Hf01 Hrec Hoi Hvs Henc Hmax.
+  unfold enc_open in Henc. rewrite Hrec, Hoi in Henc. cbn [negb] in Henc. cbv iota in Henc.
+  assert (Hna: base_of T <> TAny) by (destruct (rec_fields_base T fs Hrec) as [E|E]; rewrite E; discriminate).
+  unfold hole_val in Hvs. rewrite Hrec in Hvs. apply Bool.andb_true_iff in Hvs. destruct Hvs as [H1 H2].
+  pose proof (sv3_hole_length ce cd oi fs vs H1) as Hlen.
+  assert (Hsv: stage3_val ce cd T (VRec (set_nth oi None vs)) = true).
+  { rewrite (stage3_val_base ce cd T _ Hna). rewrite (stage3_val_rec ce cd (base_of T) fs _ (rec_fields_base T fs Hrec)).
+    exact (sv3_fill_none ce cd oi fs vs ft H1 Hoi). }
+  assert (Hsa: d = false -> anys_ok T (VRec (set_nth oi None vs)) = true).
+  { intros Hd. rewrite Hd in H2. cbn [orb] in H2. rewrite (anys_ok_base T _ Hna).
+    rewrite (anys_ok_rec (base_of T) fs _ (rec_fields_base T fs Hrec)). exact (anys_fill_none oi fs vs Opt ft H2 Hoi). }
+  destruct (codec_rt ce cd d k srt Hmode T _ wire Hty Hf01 Hsv Hsa Henc Hmax) as (v' & Hdec & Haeq & Heq).
+  pose proof Haeq as E. rewrite (abs_record T fs _ Hrec) in E.
+  destruct (aeq_to_rec _ _ E) as (xs & Hx & HF).
+  destruct (abs_is_rec T fs v' xs Hrec Hx) as [vs' ->].
+  rewrite (abs_record T fs _ Hrec) in Hx. inversion Hx; subst xs; clear Hx.
+  assert (Hnone: nth oi vs' None = None).
+  { destruct (nth oi vs' None) as [fv|] eqn:Hfv; [|reflexivity]. exfalso.
+    pose proof (abs_fields_nth fs vs' oi Opt ft fv Hoi Hfv) as Hn.
+    assert (Hsn: nth oi (OpenType.abs_fields fs (set_nth oi None vs)) None = None).
+    { apply (abs_fields_nth_none fs _ oi Opt ft Hoi I). apply nth_set_nth_same. exact Hlen. }
+    rewrite (opt_rel_nth_none _ _ HF oi Hsn) in Hn. discriminate Hn. }
+  exists vs'. split; [|split; [exact Hnone|split; [exact Haeq|exact Heq]]].
+  unfold dec_open, dec_open_after. rewrite Hdec. cbn [bind].
+  destruct (negb (dot || match override with [] => false | _ :: _ => true end)); [reflexivity|].
+  rewrite Hrec. unfold second_pass. rewrite Hoi, Hnone. reflexivity.
+Qed.
+
+(* the CER and DER encoders fix their options: whatever defMode / maxChunkSize the caller passes, the open record
+   is written as with (False, 1000) resp. (True, 0) - the modes of [mode_ok] *)
+Lemma enc_open_der_fixed d k T oi v pr inners : enc_open DER d k T oi v pr inners = enc_open DER true 0 T oi v pr inners.
+Proof. reflexivity. Qed.
+Lemma enc_open_cer_fixed d k T oi v pr inners : enc_open CER d k T oi v pr inners = enc_open CER false 1000 T oi v pr inners.
+Proof. reflexivity. Qed.
+
 Print Assumptions codec_rt.
 Print Assumptions definite_encoding_is_tlv.
 Print Assumptions open_raw.
@@ -1064,4 +2183,311 @@ Print Assumptions open_override_wins.
 Print Assumptions open_raw_list.
 Print Assumptions open_resolved_list.
 Print Assumptions open_override_wins_list.
+Print Assumptions open_resolved_record.
+Print Assumptions open_override_wins_record.
+Print Assumptions open_absent.
+Print Assumptions open_resolved_list_record.
+Print Assumptions sorted_first_pass.
+Print Assumptions open_raw_d.
+Print Assumptions open_resolved_d.
+Print Assumptions chunk_in_wire.
 
+(* ====================================================================================================== *)
+(* Part 9.  The hypotheses are satisfiable: the theorems applied to concrete records. *)
+
+Ltac vmc := match goal with |- _ = _ => vm_compute; reflexivity end.
+
+(* (A) DER encoder, BER decoder; [APPLICATION 3] EXPLICIT SEQUENCE { id OBJECT IDENTIFIER, flag BOOLEAN OPTIONAL,
+       value [0] EXPLICIT ANY DEFINED BY id OPTIONAL }; the inner value is a SEQUENCE { INTEGER, BOOLEAN } *)
+Definition exA_ty : ty :=
+  TExp (mkTag Appl false 3) (TSeq [(Req, TOid); (Opt, TBool); (Opt, TExp (mkTag Ctx false 0) TAny)]).
+Definition exA_in : ty := TSeq [(Req, TInt); (Req, TBool)].
+Definition exA_map : omap := [(VOid [1;3;6;1;1], TStr 12); (VOid [1;3;6;1;2], exA_in)].
+Definition exA_wire : bytes := [99;18;48;16;6;4;43;6;1;2;160;8;48;6;2;1;5;1;1;255].
+
+Example exA_wire_ok :
+  enc_open DER true 0 exA_ty 2 (VRec [Some (VOid [1;3;6;1;2]); None; None]) true [(exA_in, VRec [Some (VInt 5); Some (VBool true)])]
+  = Ok exA_wire.
+Proof. vmc. Qed.
+
+Example open_resolved_nonvacuous_A :
+  exists chunk w vs',
+    encode DER true 0 exA_in (VRec [Some (VInt 5); Some (VBool true)]) = Ok chunk /\
+    dec_open BER exA_ty 0 2 exA_map [] true exA_wire
+      = Ok (DV (subst_field exA_ty 2 exA_in) (VRec (set_nth 2 (Some w) vs')), []) /\
+    aeq (abs exA_in w) (abs exA_in (VRec [Some (VInt 5); Some (VBool true)])) /\
+    (false = false -> abs exA_in w = abs exA_in (VRec [Some (VInt 5); Some (VBool true)])) /\
+    nth 0 vs' None = Some (VOid [1;3;6;1;2]) /\
+    aeq (abs exA_ty (VRec vs')) (abs exA_ty (VRec (set_nth 2 (Some (VAny chunk)) [Some (VOid [1;3;6;1;2]); None; None]))) /\
+    (false = false -> abs exA_ty (VRec vs') = abs exA_ty (VRec (set_nth 2 (Some (VAny chunk)) [Some (VOid [1;3;6;1;2]); None; None]))).
+Proof.
+  apply (open_resolved DER BER true 0 false (mode_def DER BER true 0 (or_intror eq_refl) eq_refl eq_refl)
+           exA_ty [(Req, TOid); (Opt, TBool); (Opt, TExp (mkTag Ctx false 0) TAny)] 0%nat 2%nat Opt (TExp (mkTag Ctx false 0) TAny) Req TOid);
+    try vmc; try exact I; try (intros E; discriminate E).
+  - left. right. exists [(Req, TOid); (Opt, TBool); (Opt, TExp (mkTag Ctx false 0) TAny)]. reflexivity.
+  - intros _ _. vmc.
+  - left. reflexivity.
+Qed.
+
+(* with decodeOpenTypes off, and with an unmapped governing value, the same record keeps the complete encoding *)
+Example open_raw_nonvacuous_A :
+  exists chunk vs' fv,
+    encode DER true 0 exA_in (VRec [Some (VInt 5); Some (VBool true)]) = Ok chunk /\
+    dec_open BER exA_ty 0 2 exA_map [] false exA_wire = Ok (DV exA_ty (VRec vs'), []) /\
+    nth 2 vs' None = Some fv /\ octets_of fv = Some chunk /\
+    aeq (abs exA_ty (VRec vs')) (abs exA_ty (VRec (set_nth 2 (Some (VAny chunk)) [Some (VOid [1;3;6;1;2]); None; None]))) /\
+    (false = false -> abs exA_ty (VRec vs') = abs exA_ty (VRec (set_nth 2 (Some (VAny chunk)) [Some (VOid [1;3;6;1;2]); None; None]))).
+Proof.
+  apply (open_raw DER BER true 0 false (mode_def DER BER true 0 (or_intror eq_refl) eq_refl eq_refl)
+           exA_ty [(Req, TOid); (Opt, TBool); (Opt, TExp (mkTag Ctx false 0) TAny)] 0%nat 2%nat Opt (TExp (mkTag Ctx false 0) TAny) Req TOid)
+    with (g := VOid [1;3;6;1;2]);
+    try vmc; try exact I; try (intros E; discriminate E).
+  - left. right. exists [(Req, TOid); (Opt, TBool); (Opt, TExp (mkTag Ctx false 0) TAny)]. reflexivity.
+  - intros _ _. vmc.
+  - left. split; reflexivity.
+Qed.
+
+(* (B) the documented example, BER: SEQUENCE { id INTEGER, blob ANY DEFINED BY id } - the ANY untagged; the caller's
+       map re-maps id 1 to OCTET STRING though the type's own map says INTEGER *)
+Definition exB_ty : ty := TSeq [(Req, TInt); (Req, TAny)].
+Definition exB_map : omap := [(VInt 1, TInt); (VInt 2, TOcts)].
+
+Example open_override_wins_nonvacuous_B :
+  exists chunk w vs',
+    encode BER true 0 TOcts (VOcts [104; 105]) = Ok chunk /\
+    dec_open CER exB_ty 0 1 exB_map [(VInt 1, TOcts)] false [48; 7; 2; 1; 1; 4; 2; 104; 105]
+      = Ok (DV (subst_field exB_ty 1 TOcts) (VRec (set_nth 1 (Some w) vs')), []) /\
+    aeq (abs TOcts w) (abs TOcts (VOcts [104; 105])) /\
+    (false = false -> abs TOcts w = abs TOcts (VOcts [104; 105])) /\
+    nth 0 vs' None = Some (VInt 1) /\
+    aeq (abs exB_ty (VRec vs')) (abs exB_ty (VRec (set_nth 1 (Some (VAny chunk)) [Some (VInt 1); None]))) /\
+    (false = false -> abs exB_ty (VRec vs') = abs exB_ty (VRec (set_nth 1 (Some (VAny chunk)) [Some (VInt 1); None]))).
+Proof.
+  apply (open_override_wins BER CER true 0 false (mode_def BER CER true 0 (or_introl eq_refl) eq_refl eq_refl)
+           exB_ty [(Req, TInt); (Req, TAny)] 0%nat 1%nat Req TAny Req TInt);
+    try vmc; try exact I; try (intros E; discriminate E).
+  - left. left. reflexivity.
+Qed.
+
+(* (C) the CER encoder (indefinite lengths) read by the BER decoder: SET { id ENUMERATED, value [1] EXPLICIT ANY DEFINED BY id }
+       under BER rules would keep the order; here a SEQUENCE; the inner value is primitive, so its encoding has a
+       definite length, which is what [inner_definite] asks for where lengths are indefinite *)
+Definition exC_ty : ty := TSeq [(Req, TEnum); (Req, TExp (mkTag Ctx false 1) TAny)].
+Definition exC_map : omap := [(VInt 7, TOid)].
+
+Example open_resolved_nonvacuous_C :
+  enc_open CER false 1000 exC_ty 1 (VRec [Some (VInt 7); None]) true [(TOid, VOid [1; 3; 6; 1])]
+    = Ok [48; 128; 10; 1; 7; 161; 128; 6; 3; 43; 6; 1; 0; 0; 0; 0] /\
+  exists chunk w vs',
+    encode CER false 1000 TOid (VOid [1; 3; 6; 1]) = Ok chunk /\
+    dec_open BER exC_ty 0 1 exC_map [] true [48; 128; 10; 1; 7; 161; 128; 6; 3; 43; 6; 1; 0; 0; 0; 0]
+      = Ok (DV (subst_field exC_ty 1 TOid) (VRec (set_nth 1 (Some w) vs')), []) /\
+    aeq (abs TOid w) (abs TOid (VOid [1; 3; 6; 1])) /\
+    (false = false -> abs TOid w = abs TOid (VOid [1; 3; 6; 1])) /\
+    nth 0 vs' None = Some (VInt 7) /\
+    aeq (abs exC_ty (VRec vs')) (abs exC_ty (VRec (set_nth 1 (Some (VAny chunk)) [Some (VInt 7); None]))) /\
+    (false = false -> abs exC_ty (VRec vs') = abs exC_ty (VRec (set_nth 1 (Some (VAny chunk)) [Some (VInt 7); None]))).
+Proof.
+  split; [vmc|].
+  apply (open_resolved CER BER false 1000 false (mode_any CER BER false 1000 stable_cer (or_introl eq_refl))
+           exC_ty [(Req, TEnum); (Req, TExp (mkTag Ctx false 1) TAny)] 0%nat 1%nat Req (TExp (mkTag Ctx false 1) TAny) Req TEnum);
+    try vmc; try exact I; try (intros _; vmc); try (intros E; discriminate E).
+  - left. right. exists [(Req, TEnum); (Req, TExp (mkTag Ctx false 1) TAny)]. reflexivity.
+  - intros _ chunk H. vm_compute in H. inversion H; subst. vmc.
+  - left. reflexivity.
+Qed.
+
+(* (D) a SET OF [3] EXPLICIT ANY member in a SET under the DER encoder (members and elements sorted), DER decoder:
+       [srt = true], abstract contents equal up to the order of the SET OF elements *)
+Definition exD_ty : ty := TSet [(Req, TInt); (Opt, TSetOf (TExp (mkTag Ctx false 3) TAny))].
+Definition exD_map : omap := [(VInt 1, TInt)].
+Definition exD_wire : bytes := [49; 16; 2; 1; 1; 49; 11; 163; 3; 2; 1; 1; 163; 4; 2; 2; 1; 0].
+
+Example open_resolved_list_nonvacuous_D :
+  enc_open DER true 0 exD_ty 1 (VRec [Some (VInt 1); None]) true [(TInt, VInt 256); (TInt, VInt 1)] = Ok exD_wire /\
+  exists vs' ws,
+    dec_open DER exD_ty 0 1 exD_map [] true exD_wire
+      = Ok (DV (subst_field exD_ty 1 (retype_list (TSetOf (TExp (mkTag Ctx false 3) TAny)) TInt))
+               (VRec (set_nth 1 (Some (VList ws)) vs')), []) /\
+    length ws = length [VInt 256; VInt 1] /\
+    Forall (fun w => exists x, In x [VInt 256; VInt 1] /\ aeq (abs TInt w) (abs TInt x) /\ (true = false -> abs TInt w = abs TInt x)) ws /\
+    nth 0 vs' None = Some (VInt 1).
+Proof.
+  split; [vmc|].
+  apply (open_resolved_list DER DER true 0 true (mode_def DER DER true 0 (or_intror eq_refl) eq_refl eq_refl)
+           exD_ty [(Req, TInt); (Opt, TSetOf (TExp (mkTag Ctx false 3) TAny))] 0%nat 1%nat Opt
+           (TSetOf (TExp (mkTag Ctx false 3) TAny)) (TExp (mkTag Ctx false 3) TAny) Req TInt)
+    with (inners := [(TInt, VInt 256); (TInt, VInt 1)]) (E := TInt) (xs := [VInt 256; VInt 1])
+         (vs := [Some (VInt 1); None]);
+    try vmc; try exact I; try (intros E; discriminate E).
+  - repeat constructor; try vmc; intros E; discriminate E.
+  - intros _ _ E. discriminate E.
+  - left. reflexivity.
+Qed.
+
+Example open_raw_list_nonvacuous_D :
+  exists vs' ys,
+    dec_open DER exD_ty 0 1 exD_map [] false exD_wire = Ok (DV exD_ty (VRec vs'), []) /\
+    nth 1 vs' None = Some (VList ys) /\ length ys = length [(TInt, VInt 256); (TInt, VInt 1)] /\
+    Forall (fun y => exists Ti xi ch, In (Ti, xi) [(TInt, VInt 256); (TInt, VInt 1)] /\ encode DER true 0 Ti xi = Ok ch /\ octets_of y = Some ch) ys.
+Proof.
+  apply (open_raw_list DER DER true 0 true (mode_def DER DER true 0 (or_intror eq_refl) eq_refl eq_refl)
+           exD_ty [(Req, TInt); (Opt, TSetOf (TExp (mkTag Ctx false 3) TAny))] 0%nat 1%nat Opt
+           (TSetOf (TExp (mkTag Ctx false 3) TAny)) (TExp (mkTag Ctx false 3) TAny) Req TInt)
+    with (g := VInt 1) (vs := [Some (VInt 1); None]) (inners := [(TInt, VInt 256); (TInt, VInt 1)]); try vmc; try exact I; try (intros E; discriminate E).
+  - repeat constructor; try vmc; intros E; discriminate E.
+  - intros _ _ E. discriminate E.
+  - left. split; reflexivity.
+Qed.
+
+(* (A') the same record in one statement: what comes back is the record with the typed inner value *)
+Example open_resolved_record_nonvacuous_A :
+  exists rv,
+    dec_open BER exA_ty 0 2 exA_map [] true exA_wire = Ok (DV (subst_field exA_ty 2 exA_in) rv, []) /\
+    aeq (abs (subst_field exA_ty 2 exA_in) rv)
+        (abs (subst_field exA_ty 2 exA_in)
+             (VRec (set_nth 2 (Some (VRec [Some (VInt 5); Some (VBool true)])) [Some (VOid [1;3;6;1;2]); None; None]))) /\
+    (false = false -> abs (subst_field exA_ty 2 exA_in) rv
+                      = abs (subst_field exA_ty 2 exA_in)
+                            (VRec (set_nth 2 (Some (VRec [Some (VInt 5); Some (VBool true)])) [Some (VOid [1;3;6;1;2]); None; None]))).
+Proof.
+  apply (open_resolved_record DER BER true 0 false (mode_def DER BER true 0 (or_intror eq_refl) eq_refl eq_refl)
+           exA_ty [(Req, TOid); (Opt, TBool); (Opt, TExp (mkTag Ctx false 0) TAny)] 0%nat 2%nat Opt (TExp (mkTag Ctx false 0) TAny) Req TOid)
+    with (g := VOid [1;3;6;1;2]);
+    try vmc; try exact I; try (intros E; discriminate E).
+  - left. right. exists [(Req, TOid); (Opt, TBool); (Opt, TExp (mkTag Ctx false 0) TAny)]. reflexivity.
+  - intros _ _. vmc.
+  - left. reflexivity.
+Qed.
+
+(* (E) the governing member declared DEFAULT and left out of the encoding (its value is the default): BER,
+       SEQUENCE { kind INTEGER DEFAULT 1, body [0] EXPLICIT ANY DEFINED BY kind }, decoder of Model/OpenTypeDef.v *)
+Definition exE_ty : ty := TSeq [(Def (VInt 1), TInt); (Req, TExp (mkTag Ctx false 0) TAny)].
+Definition exE_in : ty := TSeq [(Req, TInt); (Req, TInt)].
+Definition exE_map : omap := [(VInt 1, exE_in); (VInt 2, TOcts)].
+
+Example open_resolved_d_nonvacuous_E :
+  enc_open BER true 0 exE_ty 1 (VRec [None; None]) true [(exE_in, VRec [Some (VInt 3); Some (VInt (-4))])]
+    = Ok [48; 10; 160; 8; 48; 6; 2; 1; 3; 2; 1; 252] /\
+  exists rv,
+    dec_open_d BER exE_ty 0 1 exE_map [] true [48; 10; 160; 8; 48; 6; 2; 1; 3; 2; 1; 252] = Ok (DV (subst_field exE_ty 1 exE_in) rv, []) /\
+    aeq (abs (subst_field exE_ty 1 exE_in) rv)
+        (abs (subst_field exE_ty 1 exE_in) (VRec (set_nth 1 (Some (VRec [Some (VInt 3); Some (VInt (-4))])) [None; None]))) /\
+    (false = false -> abs (subst_field exE_ty 1 exE_in) rv
+                      = abs (subst_field exE_ty 1 exE_in) (VRec (set_nth 1 (Some (VRec [Some (VInt 3); Some (VInt (-4))])) [None; None]))).
+Proof.
+  split; [vmc|].
+  apply (open_resolved_d BER BER true 0 false (mode_def BER BER true 0 (or_introl eq_refl) eq_refl eq_refl)
+           exE_ty [(Def (VInt 1), TInt); (Req, TExp (mkTag Ctx false 0) TAny)] 0%nat 1%nat Req (TExp (mkTag Ctx false 0) TAny) (Def (VInt 1)) TInt)
+    with (g := VInt 1);
+    try vmc; try exact I; try (intros E; discriminate E).
+  - left. left. reflexivity.
+  - left. reflexivity.
+Qed.
+
+Example open_raw_d_nonvacuous_E :
+  exists chunk vs' fv,
+    encode BER true 0 exE_in (VRec [Some (VInt 3); Some (VInt (-4))]) = Ok chunk /\
+    dec_open_d BER exE_ty 0 1 exE_map [] false [48; 10; 160; 8; 48; 6; 2; 1; 3; 2; 1; 252] = Ok (DV exE_ty (VRec vs'), []) /\
+    nth 1 vs' None = Some fv /\ octets_of fv = Some chunk /\
+    aeq (abs exE_ty (VRec vs')) (abs exE_ty (VRec (set_nth 1 (Some (VAny chunk)) [None; None]))) /\
+    (false = false -> abs exE_ty (VRec vs') = abs exE_ty (VRec (set_nth 1 (Some (VAny chunk)) [None; None]))).
+Proof.
+  apply (open_raw_d BER BER true 0 false (mode_def BER BER true 0 (or_introl eq_refl) eq_refl eq_refl)
+           exE_ty [(Def (VInt 1), TInt); (Req, TExp (mkTag Ctx false 0) TAny)] 0%nat 1%nat Req (TExp (mkTag Ctx false 0) TAny) (Def (VInt 1)) TInt)
+    with (g := VInt 1);
+    try vmc; try exact I; try (intros E; discriminate E).
+  - left. left. reflexivity.
+  - left. split; reflexivity.
+Qed.
+
+(* (F) a SET with an EXPLICITly tagged ANY member under the DER encoder: the SET encoder orders the members by the
+       tag of the typed inner value (BOOLEAN before INTEGER), so the bytes are not those of the plain record
+       encoder (which would put [3] after INTEGER); the theorems cover them all the same *)
+Definition exF_ty : ty := TSet [(Req, TInt); (Req, TExp (mkTag Ctx false 3) TAny)].
+
+Example open_resolved_record_nonvacuous_F :
+  enc_open DER true 0 exF_ty 1 (VRec [Some (VInt 1); None]) true [(TBool, VBool true)] = Ok [49; 8; 163; 3; 1; 1; 255; 2; 1; 1] /\
+  encode DER true 0 exF_ty (VRec [Some (VInt 1); Some (VAny [1; 1; 255])]) = Ok [49; 8; 2; 1; 1; 163; 3; 1; 1; 255] /\
+  exists rv,
+    dec_open CER exF_ty 0 1 [(VInt 1, TBool)] [] true [49; 8; 163; 3; 1; 1; 255; 2; 1; 1] = Ok (DV (subst_field exF_ty 1 TBool) rv, []) /\
+    aeq (abs (subst_field exF_ty 1 TBool) rv) (abs (subst_field exF_ty 1 TBool) (VRec (set_nth 1 (Some (VBool true)) [Some (VInt 1); None]))) /\
+    (false = false -> abs (subst_field exF_ty 1 TBool) rv
+                      = abs (subst_field exF_ty 1 TBool) (VRec (set_nth 1 (Some (VBool true)) [Some (VInt 1); None]))).
+Proof.
+  split; [vmc|]. split; [vmc|].
+  apply (open_resolved_record DER CER true 0 false (mode_def DER CER true 0 (or_intror eq_refl) eq_refl eq_refl)
+           exF_ty [(Req, TInt); (Req, TExp (mkTag Ctx false 3) TAny)] 0%nat 1%nat Req (TExp (mkTag Ctx false 3) TAny) Req TInt)
+    with (g := VInt 1);
+    try vmc; try exact I; try (intros E; discriminate E).
+  - right. reflexivity.
+  - left. reflexivity.
+Qed.
+
+(* (D') the SET OF member in one statement (DER: the elements re-ordered; contents equal as multisets) *)
+Example open_resolved_list_record_nonvacuous_D :
+  exists rv,
+    dec_open DER exD_ty 0 1 exD_map [] true exD_wire
+      = Ok (DV (subst_field exD_ty 1 (retype_list (TSetOf (TExp (mkTag Ctx false 3) TAny)) TInt)) rv, []) /\
+    aeq (abs (subst_field exD_ty 1 (retype_list (TSetOf (TExp (mkTag Ctx false 3) TAny)) TInt)) rv)
+        (abs (subst_field exD_ty 1 (retype_list (TSetOf (TExp (mkTag Ctx false 3) TAny)) TInt))
+             (VRec (set_nth 1 (Some (VList [VInt 256; VInt 1])) [Some (VInt 1); None]))) /\
+    (true = false -> abs (subst_field exD_ty 1 (retype_list (TSetOf (TExp (mkTag Ctx false 3) TAny)) TInt)) rv
+                     = abs (subst_field exD_ty 1 (retype_list (TSetOf (TExp (mkTag Ctx false 3) TAny)) TInt))
+                           (VRec (set_nth 1 (Some (VList [VInt 256; VInt 1])) [Some (VInt 1); None]))).
+Proof.
+  apply (open_resolved_list_record DER DER true 0 true (mode_def DER DER true 0 (or_intror eq_refl) eq_refl eq_refl)
+           exD_ty [(Req, TInt); (Opt, TSetOf (TExp (mkTag Ctx false 3) TAny))] 0%nat 1%nat Opt
+           (TSetOf (TExp (mkTag Ctx false 3) TAny)) (TExp (mkTag Ctx false 3) TAny) Req TInt)
+    with (g := VInt 1);
+    try vmc; try exact I; try (intros E; discriminate E).
+  - repeat constructor; try vmc; intros E; discriminate E.
+  - intros _ _ E. discriminate E.
+  - left. reflexivity.
+Qed.
+
+(* ---------- what the conditions exclude is false of the model ---------- *)
+
+(* [inner_kept] (the F24 class showing through an open type): under the DER (and CER) encoder the encode call of an
+   OPTIONAL open member gets ifNotEmpty, and hands it on to the inner value: an empty SEQUENCE OF is written as NO
+   octets at all - the member holds nothing instead of the complete encoding 30 00, and resolution fails *)
+Example inner_kept_needed :
+  let T := TSeq [(Req, TInt); (Opt, TExp (mkTag Ctx false 0) TAny)] in
+  stage3_ty false DER T = true /\ hole_val DER DER true T 1 [Some (VInt 1); None] = true
+  /\ stage3_ty false DER (TSeqOf TInt) = true /\ stage3_val DER DER (TSeqOf TInt) (VList []) = true
+  /\ nonempty_enc DER (TSeqOf TInt) (VList []) = false
+  /\ encode DER true 0 (TSeqOf TInt) (VList []) = Ok [48; 0]
+  /\ enc_open DER true 0 T 1 (VRec [Some (VInt 1); None]) true [(TSeqOf TInt, VList [])] = Ok [48; 5; 2; 1; 1; 160; 0]
+  /\ dec_open DER T 0 1 [(VInt 1, TSeqOf TInt)] [] false [48; 5; 2; 1; 1; 160; 0]
+     = Ok (DV T (VRec [Some (VInt 1); Some (VAny [])]), [])
+  /\ dec_open DER T 0 1 [(VInt 1, TSeqOf TInt)] [] true [48; 5; 2; 1; 1; 160; 0] = Err EEndOfStream
+  /\ (* the BER encoder does not pass ifNotEmpty *)
+     enc_open BER true 0 T 1 (VRec [Some (VInt 1); None]) true [(TSeqOf TInt, VList [])] = Ok [48; 7; 2; 1; 1; 160; 2; 48; 0].
+Proof. vm_compute. repeat split; reflexivity. Qed.
+
+(* [inner_definite] is a limit of the codec theorem (RoundTripModes3.v asks for definite-length TLVs inside an ANY
+   where lengths are indefinite), not of the model: a constructed inner value under indefinite lengths resolves *)
+Example inner_definite_not_necessary :
+  let Tin := TSeq [(Req, TInt); (Req, TBool)] in
+  let vin := VRec [Some (VInt 5); Some (VBool true)] in
+  encode BER false 0 Tin vin = Ok [48; 128; 2; 1; 5; 1; 1; 1; 0; 0]
+  /\ tlv_ok [48; 128; 2; 1; 5; 1; 1; 1; 0; 0] = false
+  /\ enc_open BER false 0 exC_ty 1 (VRec [Some (VInt 7); None]) true [(Tin, vin)]
+     = Ok [48; 128; 10; 1; 7; 161; 128; 48; 128; 2; 1; 5; 1; 1; 1; 0; 0; 0; 0; 0; 0]
+  /\ dec_open BER exC_ty 0 1 [(VInt 7, Tin)] [] true [48; 128; 10; 1; 7; 161; 128; 48; 128; 2; 1; 5; 1; 1; 1; 0; 0; 0; 0; 0; 0]
+     = Ok (DV (subst_field exC_ty 1 Tin) (VRec [Some (VInt 7); Some vin]), []).
+Proof. vm_compute. repeat split; reflexivity. Qed.
+
+(* the OPTIONAL open member left out *)
+Example open_absent_nonvacuous_A :
+  enc_open DER true 0 exA_ty 2 (VRec [Some (VOid [1;3;6;1;2]); Some (VBool true); None]) false [] = Ok [99; 11; 48; 9; 6; 4; 43; 6; 1; 2; 1; 1; 255] /\
+  exists vs', dec_open BER exA_ty 0 2 exA_map [] true [99; 11; 48; 9; 6; 4; 43; 6; 1; 2; 1; 1; 255] = Ok (DV exA_ty (VRec vs'), []) /\
+    nth 2 vs' None = None /\
+    aeq (abs exA_ty (VRec vs')) (abs exA_ty (VRec (set_nth 2 None [Some (VOid [1;3;6;1;2]); Some (VBool true); None]))) /\
+    (false = false -> abs exA_ty (VRec vs') = abs exA_ty (VRec (set_nth 2 None [Some (VOid [1;3;6;1;2]); Some (VBool true); None]))).
+Proof.
+  split; [vmc|].
+  apply (open_absent DER BER true 0 false exA_ty [(Req, TOid); (Opt, TBool); (Opt, TExp (mkTag Ctx false 0) TAny)] 0%nat 2%nat
+           (TExp (mkTag Ctx false 0) TAny) _ [] _ exA_map [] true (mode_def DER BER true 0 (or_intror eq_refl) eq_refl eq_refl));
+    try vmc; try (intros E; discriminate E).
+Qed.
